@@ -2,7 +2,9 @@ import NoteSeqVerif.Model.C11
 /-! GENERATED from note_seq.sequences_lib on every run by gen/refir.py (harness/c11.py) — do not edit.
 Reference / mutation IR of the sequence operations.  `ix` maps the global operation number used in the
 bodies to the position of that operation in the program slice being checked.  The lists after `.loop`
-and the contracts are PROPOSALS of the translator, verified by `pureProg`. -/
+and the contracts are PROPOSALS of the translator, verified by `pureProg`.  An operation called with
+arguments of different provenance appears once per provenance vector (`name@FB` = first argument freshly
+allocated by the caller, second anything): same body, call targets and invariants chosen for that context. -/
 namespace NSV.C11.Gen
 open NSV.C11
 set_option linter.unusedVariables false
@@ -287,6 +289,242 @@ def op__extract_subsequences (ix : Nat → Nat) : OpDef := ⟨"_extract_subseque
     .ret (.var 19)]⟩
 def ct__extract_subsequences : Contract := ⟨[B, B, B], F⟩
 
+/-- `_extract_subsequences__KU_LU_U` (sequences_lib.py:134)  params: sequence, split_times, preserve_control_numbers
+variables: 0=sequence 1=split_times 2=preserve_control_numbers 3=containers 4=event 5=events 6=events_by_type 7=new_event_containers 8=new_stateless_event_containers 9=note 10=pedal_event 11=pedal_events 12=previous_event 13=previous_pedal_event 14=previous_pedal_events 15=start_time 16=stateless_events_by_type 17=subsequence 18=subsequence_index 19=subsequences 20=_r159 21=_acc165 22=t1@165 23=t2@165 24=%it165_31 25=_acc167 26=time@167 27=%it167_49 28=_acc186 29=_@186 30=%it186_42 31=note@key192 32=%it192_14 33=_acc217 34=annotation@217 35=%it217_39 36=_acc222 37=s@222 38=%it222_54 39=_acc223 40=s@223 41=%it223_53 42=_acc224 43=s@224 44=%it224_45 45=_acc225 46=s@225 47=%it225_55 48=%it227_28 49=event@key230 50=%it230_17 51=_acc261 52=annotation@261 53=%it261_35 54=_acc265 55=s@265 56=%it265_65 57=%it266_28 58=event@key269 59=%it269_17 60=_acc283 61=cc@283 62=%it283_19 63=event@key289 64=%it289_21 65=_t291 66=%it300_34 67=_t312 68=%it318_32 69=%it324_33
+-/
+def op__extract_subsequences__KU_LU_U (ix : Nat → Nat) : OpDef := ⟨"_extract_subsequences__KU_LU_U", 3,
+  .block [
+    .assign 0 (.param 0),
+    .assign 1 (.param 1),
+    .assign 2 (.param 2),
+    .callOp 159 20 (ix 0) [(.var 0)],
+    .ite (
+      .raise) (
+      .skip),
+    .ite (
+      .raise) (
+      .skip),
+    .assign 21 .scalar,
+    .assign 24 (.tuple [(.var 1), (.var 1)]),
+    .loop [B, B, B, N, N, N, N, N, N, N, N, N, N, N, N, N, N, N, N, N, N, N, B, B, B] (
+      .block [
+        .assign 22 (.elem (.var 1)),
+        .assign 23 (.elem (.var 1))]),
+    .ite (
+      .raise) (
+      .skip),
+    .assign 25 .scalar,
+    .assign 27 (.var 1),
+    .loop [B, B, B, N, N, N, N, N, N, N, N, N, N, N, N, N, N, N, N, N, N, N, B, B, B, N, B, B] (
+      .assign 26 (.elem (.var 27))),
+    .ite (
+      .raise) (
+      .skip),
+    .ite (
+      .assign 2 .scalar) (
+      .skip),
+    .assign 17 .fresh,
+    .write 174 (.var 17),
+    .write 176 (.var 17),
+    .write 178 (.field (.var 17)),
+    .write 179 (.field (.var 17)),
+    .write 180 (.field (.var 17)),
+    .write 181 (.field (.var 17)),
+    .write 182 (.field (.var 17)),
+    .write 183 (.field (.var 17)),
+    .write 184 (.field (.var 17)),
+    .assign 28 .scalar,
+    .assign 30 .scalar,
+    .loop [B, B, B, N, N, N, N, N, N, N, N, N, N, N, N, N, N, F, N, N, N, N, B, B, B, N, B, B, F, N, N] (
+      .block [
+        .assign 29 (.elem (.var 30)),
+        .assign 28 (.tuple [(.var 28), (.copyOf (.var 17))])]),
+    .assign 19 (.var 28),
+    .assign 18 .scalar,
+    .assign 32 (.field (.var 0)),
+    .loop [B, B, B, N, N, N, N, N, N, B, N, N, N, N, N, N, N, F, N, F, N, N, B, B, B, N, B, B, F, N, N, N, B] (
+      .block [
+        .assign 9 (.elem (.var 32)),
+        .ite (
+          .skip) (
+          .ite (
+            .skip) (
+            .block [
+              .write 200 (.field (.elem (.var 19))),
+              .write 201 (.elem (.field (.elem (.var 19)))),
+              .write 203 (.elem (.field (.elem (.var 19)))),
+              .ite (
+                .write 208 (.elem (.var 19))) (
+                .skip)]))]),
+    .assign 33 .scalar,
+    .assign 35 (.field (.var 0)),
+    .loop [B, B, B, N, N, N, N, N, N, B, N, N, N, N, N, N, N, F, N, F, N, N, B, B, B, N, B, B, F, N, N, N, B, B, B, B] (
+      .block [
+        .assign 34 (.elem (.var 35)),
+        .ite (
+          .assign 33 (.tuple [(.var 33), (.var 34)])) (
+          .skip)]),
+    .assign 6 (.tuple [(.field (.var 0)), (.field (.var 0)), (.field (.var 0)), (.var 33)]),
+    .assign 36 .scalar,
+    .assign 38 (.var 19),
+    .loop [B, B, B, N, N, N, B, N, N, B, N, N, N, N, N, N, N, F, N, F, N, N, B, B, B, N, B, B, F, N, N, N, B, B, B, B, F, F, F] (
+      .block [
+        .assign 37 (.elem (.var 38)),
+        .assign 36 (.tuple [(.var 36), (.field (.var 37))])]),
+    .assign 39 .scalar,
+    .assign 41 (.var 19),
+    .loop [B, B, B, N, N, N, B, N, N, B, N, N, N, N, N, N, N, F, N, F, N, N, B, B, B, N, B, B, F, N, N, N, B, B, B, B, F, F, F, F, F, F] (
+      .block [
+        .assign 40 (.elem (.var 41)),
+        .assign 39 (.tuple [(.var 39), (.field (.var 40))])]),
+    .assign 42 .scalar,
+    .assign 44 (.var 19),
+    .loop [B, B, B, N, N, N, B, N, N, B, N, N, N, N, N, N, N, F, N, F, N, N, B, B, B, N, B, B, F, N, N, N, B, B, B, B, F, F, F, F, F, F, F, F, F] (
+      .block [
+        .assign 43 (.elem (.var 44)),
+        .assign 42 (.tuple [(.var 42), (.field (.var 43))])]),
+    .assign 45 .scalar,
+    .assign 47 (.var 19),
+    .loop [B, B, B, N, N, N, B, N, N, B, N, N, N, N, N, N, N, F, N, F, N, N, B, B, B, N, B, B, F, N, N, N, B, B, B, B, F, F, F, F, F, F, F, F, F, F, F, F] (
+      .block [
+        .assign 46 (.elem (.var 47)),
+        .assign 45 (.tuple [(.var 45), (.field (.var 46))])]),
+    .assign 7 (.tuple [(.var 36), (.var 39), (.var 42), (.var 45)]),
+    .assign 48 (.tuple [(.var 6), (.var 7)]),
+    .loop [B, B, B, F, B, B, B, F, N, B, N, N, B, N, N, N, N, F, N, F, N, N, B, B, B, N, B, B, F, N, N, N, B, B, B, B, F, F, F, F, F, F, F, F, F, F, F, F, B, N, B] (
+      .block [
+        .assign 5 (.elem (.var 6)),
+        .assign 3 (.elem (.var 7)),
+        .assign 12 .scalar,
+        .assign 18 .scalar,
+        .assign 50 (.var 5),
+        .loop [B, B, B, F, B, B, B, F, N, B, N, N, B, N, N, N, N, F, N, F, N, N, B, B, B, N, B, B, F, N, N, N, B, B, B, B, F, F, F, F, F, F, F, F, F, F, F, F, B, N, B] (
+          .block [
+            .assign 4 (.elem (.var 50)),
+            .ite (
+              .assign 12 (.var 4)) (
+              .skip),
+            .ite (
+              .skip) (
+              .block [
+                .loop [B, B, B, F, B, B, B, F, N, B, N, N, B, N, N, N, N, F, N, F, N, N, B, B, B, N, B, B, F, N, N, N, B, B, B, B, F, F, F, F, F, F, F, F, F, F, F, F, B, N, B] (
+                  .ite (
+                    .skip) (
+                    .ite (
+                      .block [
+                        .write 241 (.elem (.var 3)),
+                        .write 242 (.elem (.elem (.var 3)))]) (
+                      .skip))),
+                .ite (
+                  .skip) (
+                  .block [
+                    .ite (
+                      .block [
+                        .write 248 (.elem (.var 3)),
+                        .write 249 (.elem (.elem (.var 3)))]) (
+                      .skip),
+                    .assign 12 (.var 4)])])]),
+        .loop [B, B, B, F, B, B, B, F, N, B, N, N, B, N, N, N, N, F, N, F, N, N, B, B, B, N, B, B, F, N, N, N, B, B, B, B, F, F, F, F, F, F, F, F, F, F, F, F, B, N, B] (
+          .ite (
+            .block [
+              .write 255 (.elem (.var 3)),
+              .write 256 (.elem (.elem (.var 3)))]) (
+            .skip))]),
+    .assign 51 .scalar,
+    .assign 53 (.field (.var 0)),
+    .loop [B, B, B, F, B, B, B, F, N, B, N, N, B, N, N, N, N, F, N, F, N, N, B, B, B, N, B, B, F, N, N, N, B, B, B, B, F, F, F, F, F, F, F, F, F, F, F, F, B, N, B, B, B, B] (
+      .block [
+        .assign 52 (.elem (.var 53)),
+        .ite (
+          .assign 51 (.tuple [(.var 51), (.var 52)])) (
+          .skip)]),
+    .assign 16 (.var 51),
+    .assign 54 .scalar,
+    .assign 56 (.var 19),
+    .loop [B, B, B, F, B, B, B, F, N, B, N, N, B, N, N, N, B, F, N, F, N, N, B, B, B, N, B, B, F, N, N, N, B, B, B, B, F, F, F, F, F, F, F, F, F, F, F, F, B, N, B, B, B, B, F, F, F] (
+      .block [
+        .assign 55 (.elem (.var 56)),
+        .assign 54 (.tuple [(.var 54), (.field (.var 55))])]),
+    .assign 8 (.var 54),
+    .assign 57 (.tuple [(.var 16), (.var 8)]),
+    .loop [B, B, B, F, B, B, B, F, F, B, N, N, B, N, N, N, B, F, N, F, N, N, B, B, B, N, B, B, F, N, N, N, B, B, B, B, F, F, F, F, F, F, F, F, F, F, F, F, B, N, B, B, B, B, F, F, F, B, N, B] (
+      .block [
+        .assign 5 (.elem (.var 16)),
+        .assign 3 (.elem (.var 8)),
+        .assign 18 .scalar,
+        .assign 59 (.var 5),
+        .loop [B, B, B, F, B, B, B, F, F, B, N, N, B, N, N, N, B, F, N, F, N, N, B, B, B, N, B, B, F, N, N, N, B, B, B, B, F, F, F, F, F, F, F, F, F, F, F, F, B, N, B, B, B, B, F, F, F, B, N, B] (
+          .block [
+            .assign 4 (.elem (.var 59)),
+            .ite (
+              .skip) (
+              .ite (
+                .skip) (
+                .block [
+                  .write 277 (.elem (.var 3)),
+                  .write 278 (.elem (.elem (.var 3)))]))])]),
+    .assign 60 .scalar,
+    .assign 62 (.field (.var 0)),
+    .loop [B, B, B, F, B, B, B, F, F, B, N, N, B, N, N, N, B, F, N, F, N, N, B, B, B, N, B, B, F, N, N, N, B, B, B, B, F, F, F, F, F, F, F, F, F, F, F, F, B, N, B, B, B, B, F, F, F, B, N, B, B, B, B] (
+      .block [
+        .assign 61 (.elem (.var 62)),
+        .ite (
+          .assign 60 (.tuple [(.var 60), (.var 61)])) (
+          .skip)]),
+    .assign 11 (.var 60),
+    .assign 14 .scalar,
+    .assign 18 .scalar,
+    .assign 64 (.var 11),
+    .loop [B, B, B, F, B, B, B, F, F, B, B, B, B, B, B, N, B, F, N, F, N, N, B, B, B, N, B, B, F, N, N, N, B, B, B, B, F, F, F, F, F, F, F, F, F, F, F, F, B, N, B, B, B, B, F, F, F, B, N, B, B, B, B, N, B, B, B, B] (
+      .block [
+        .assign 10 (.elem (.var 64)),
+        .ite (
+          .block [
+            .assign 65 (.var 10),
+            .assign 14 (.tuple [(.var 14), (.var 65)])]) (
+          .skip),
+        .ite (
+          .skip) (
+          .block [
+            .loop [B, B, B, F, B, B, B, F, F, B, B, B, B, B, B, N, B, F, N, F, N, N, B, B, B, N, B, B, F, N, N, N, B, B, B, B, F, F, F, F, F, F, F, F, F, F, F, F, B, N, B, B, B, B, F, F, F, B, N, B, B, B, B, N, B, B, B, B] (
+              .ite (
+                .skip) (
+                .block [
+                  .assign 66 (.var 14),
+                  .loop [B, B, B, F, B, B, B, F, F, B, B, B, B, B, B, N, B, F, N, F, N, N, B, B, B, N, B, B, F, N, N, N, B, B, B, B, F, F, F, F, F, F, F, F, F, F, F, F, B, N, B, B, B, B, F, F, F, B, N, B, B, B, B, N, B, B, B, B] (
+                    .block [
+                      .assign 13 (.elem (.var 66)),
+                      .write 301 (.field (.elem (.var 19))),
+                      .write 303 (.elem (.field (.elem (.var 19))))])])),
+            .ite (
+              .skip) (
+              .block [
+                .ite (
+                  .block [
+                    .write 309 (.field (.elem (.var 19))),
+                    .write 310 (.elem (.field (.elem (.var 19))))]) (
+                  .skip),
+                .assign 67 (.var 10),
+                .assign 14 (.tuple [(.var 14), (.var 67)]),
+                .assign 66 (.tuple [(.var 66), (.var 67)])])])]),
+    .loop [B, B, B, F, B, B, B, F, F, B, B, B, B, B, B, N, B, F, N, F, N, N, B, B, B, N, B, B, F, N, N, N, B, B, B, B, F, F, F, F, F, F, F, F, F, F, F, F, B, N, B, B, B, B, F, F, F, B, N, B, B, B, B, N, B, B, B, B, B] (
+      .block [
+        .assign 68 (.var 14),
+        .loop [B, B, B, F, B, B, B, F, F, B, B, B, B, B, B, N, B, F, N, F, N, N, B, B, B, N, B, B, F, N, N, N, B, B, B, B, F, F, F, F, F, F, F, F, F, F, F, F, B, N, B, B, B, B, F, F, F, B, N, B, B, B, B, N, B, B, B, B, B] (
+          .block [
+            .assign 13 (.elem (.var 68)),
+            .write 319 (.field (.elem (.var 19))),
+            .write 321 (.elem (.field (.elem (.var 19))))])]),
+    .assign 69 (.tuple [(.var 19), (.var 1)]),
+    .loop [B, B, B, F, B, B, B, F, F, B, B, B, B, B, B, B, B, F, N, F, N, N, B, B, B, N, B, B, F, N, N, N, B, B, B, B, F, F, F, F, F, F, F, F, F, F, F, F, B, N, B, B, B, B, F, F, F, B, N, B, B, B, B, N, B, B, B, B, B, B] (
+      .block [
+        .assign 17 (.elem (.var 19)),
+        .assign 15 (.elem (.var 1)),
+        .write 325 (.field (.var 17)),
+        .write 326 (.field (.var 17))]),
+    .ret (.var 19)]⟩
+def ct__extract_subsequences__KU_LU_U : Contract := ⟨[B, B, B], F⟩
+
 /-- `extract_subsequence` (sequences_lib.py:332)  params: sequence, start_time, end_time, preserve_control_numbers
 variables: 0=sequence 1=start_time 2=end_time 3=preserve_control_numbers 4=_r368
 -/
@@ -296,9 +534,245 @@ def op_extract_subsequence (ix : Nat → Nat) : OpDef := ⟨"extract_subsequence
     .assign 1 (.param 1),
     .assign 2 (.param 2),
     .assign 3 (.param 3),
-    .callOp 368 4 (ix 2) [(.var 0), (.tuple [(.var 1), (.var 2)]), (.var 3)],
+    .callOp 368 4 (ix 3) [(.var 0), (.tuple [(.var 1), (.var 2)]), (.var 3)],
     .ret (.elem (.var 4))]⟩
 def ct_extract_subsequence : Contract := ⟨[B, B, B, B], F⟩
+
+/-- `_extract_subsequences__KU_LU_U@BBN` (sequences_lib.py:134)  params: sequence, split_times, preserve_control_numbers
+variables: 0=sequence 1=split_times 2=preserve_control_numbers 3=containers 4=event 5=events 6=events_by_type 7=new_event_containers 8=new_stateless_event_containers 9=note 10=pedal_event 11=pedal_events 12=previous_event 13=previous_pedal_event 14=previous_pedal_events 15=start_time 16=stateless_events_by_type 17=subsequence 18=subsequence_index 19=subsequences 20=_r159 21=_acc165 22=t1@165 23=t2@165 24=%it165_31 25=_acc167 26=time@167 27=%it167_49 28=_acc186 29=_@186 30=%it186_42 31=note@key192 32=%it192_14 33=_acc217 34=annotation@217 35=%it217_39 36=_acc222 37=s@222 38=%it222_54 39=_acc223 40=s@223 41=%it223_53 42=_acc224 43=s@224 44=%it224_45 45=_acc225 46=s@225 47=%it225_55 48=%it227_28 49=event@key230 50=%it230_17 51=_acc261 52=annotation@261 53=%it261_35 54=_acc265 55=s@265 56=%it265_65 57=%it266_28 58=event@key269 59=%it269_17 60=_acc283 61=cc@283 62=%it283_19 63=event@key289 64=%it289_21 65=_t291 66=%it300_34 67=_t312 68=%it318_32 69=%it324_33
+-/
+def op__extract_subsequences__KU_LU_U_at_BBN (ix : Nat → Nat) : OpDef := ⟨"_extract_subsequences__KU_LU_U@BBN", 3,
+  .block [
+    .assign 0 (.param 0),
+    .assign 1 (.param 1),
+    .assign 2 (.param 2),
+    .callOp 159 20 (ix 0) [(.var 0)],
+    .ite (
+      .raise) (
+      .skip),
+    .ite (
+      .raise) (
+      .skip),
+    .assign 21 .scalar,
+    .assign 24 (.tuple [(.var 1), (.var 1)]),
+    .loop [B, B, N, N, N, N, N, N, N, N, N, N, N, N, N, N, N, N, N, N, N, N, B, B, B] (
+      .block [
+        .assign 22 (.elem (.var 1)),
+        .assign 23 (.elem (.var 1))]),
+    .ite (
+      .raise) (
+      .skip),
+    .assign 25 .scalar,
+    .assign 27 (.var 1),
+    .loop [B, B, N, N, N, N, N, N, N, N, N, N, N, N, N, N, N, N, N, N, N, N, B, B, B, N, B, B] (
+      .assign 26 (.elem (.var 27))),
+    .ite (
+      .raise) (
+      .skip),
+    .ite (
+      .assign 2 .scalar) (
+      .skip),
+    .assign 17 .fresh,
+    .write 174 (.var 17),
+    .write 176 (.var 17),
+    .write 178 (.field (.var 17)),
+    .write 179 (.field (.var 17)),
+    .write 180 (.field (.var 17)),
+    .write 181 (.field (.var 17)),
+    .write 182 (.field (.var 17)),
+    .write 183 (.field (.var 17)),
+    .write 184 (.field (.var 17)),
+    .assign 28 .scalar,
+    .assign 30 .scalar,
+    .loop [B, B, N, N, N, N, N, N, N, N, N, N, N, N, N, N, N, F, N, N, N, N, B, B, B, N, B, B, F, N, N] (
+      .block [
+        .assign 29 (.elem (.var 30)),
+        .assign 28 (.tuple [(.var 28), (.copyOf (.var 17))])]),
+    .assign 19 (.var 28),
+    .assign 18 .scalar,
+    .assign 32 (.field (.var 0)),
+    .loop [B, B, N, N, N, N, N, N, N, B, N, N, N, N, N, N, N, F, N, F, N, N, B, B, B, N, B, B, F, N, N, N, B] (
+      .block [
+        .assign 9 (.elem (.var 32)),
+        .ite (
+          .skip) (
+          .ite (
+            .skip) (
+            .block [
+              .write 200 (.field (.elem (.var 19))),
+              .write 201 (.elem (.field (.elem (.var 19)))),
+              .write 203 (.elem (.field (.elem (.var 19)))),
+              .ite (
+                .write 208 (.elem (.var 19))) (
+                .skip)]))]),
+    .assign 33 .scalar,
+    .assign 35 (.field (.var 0)),
+    .loop [B, B, N, N, N, N, N, N, N, B, N, N, N, N, N, N, N, F, N, F, N, N, B, B, B, N, B, B, F, N, N, N, B, B, B, B] (
+      .block [
+        .assign 34 (.elem (.var 35)),
+        .ite (
+          .assign 33 (.tuple [(.var 33), (.var 34)])) (
+          .skip)]),
+    .assign 6 (.tuple [(.field (.var 0)), (.field (.var 0)), (.field (.var 0)), (.var 33)]),
+    .assign 36 .scalar,
+    .assign 38 (.var 19),
+    .loop [B, B, N, N, N, N, B, N, N, B, N, N, N, N, N, N, N, F, N, F, N, N, B, B, B, N, B, B, F, N, N, N, B, B, B, B, F, F, F] (
+      .block [
+        .assign 37 (.elem (.var 38)),
+        .assign 36 (.tuple [(.var 36), (.field (.var 37))])]),
+    .assign 39 .scalar,
+    .assign 41 (.var 19),
+    .loop [B, B, N, N, N, N, B, N, N, B, N, N, N, N, N, N, N, F, N, F, N, N, B, B, B, N, B, B, F, N, N, N, B, B, B, B, F, F, F, F, F, F] (
+      .block [
+        .assign 40 (.elem (.var 41)),
+        .assign 39 (.tuple [(.var 39), (.field (.var 40))])]),
+    .assign 42 .scalar,
+    .assign 44 (.var 19),
+    .loop [B, B, N, N, N, N, B, N, N, B, N, N, N, N, N, N, N, F, N, F, N, N, B, B, B, N, B, B, F, N, N, N, B, B, B, B, F, F, F, F, F, F, F, F, F] (
+      .block [
+        .assign 43 (.elem (.var 44)),
+        .assign 42 (.tuple [(.var 42), (.field (.var 43))])]),
+    .assign 45 .scalar,
+    .assign 47 (.var 19),
+    .loop [B, B, N, N, N, N, B, N, N, B, N, N, N, N, N, N, N, F, N, F, N, N, B, B, B, N, B, B, F, N, N, N, B, B, B, B, F, F, F, F, F, F, F, F, F, F, F, F] (
+      .block [
+        .assign 46 (.elem (.var 47)),
+        .assign 45 (.tuple [(.var 45), (.field (.var 46))])]),
+    .assign 7 (.tuple [(.var 36), (.var 39), (.var 42), (.var 45)]),
+    .assign 48 (.tuple [(.var 6), (.var 7)]),
+    .loop [B, B, N, F, B, B, B, F, N, B, N, N, B, N, N, N, N, F, N, F, N, N, B, B, B, N, B, B, F, N, N, N, B, B, B, B, F, F, F, F, F, F, F, F, F, F, F, F, B, N, B] (
+      .block [
+        .assign 5 (.elem (.var 6)),
+        .assign 3 (.elem (.var 7)),
+        .assign 12 .scalar,
+        .assign 18 .scalar,
+        .assign 50 (.var 5),
+        .loop [B, B, N, F, B, B, B, F, N, B, N, N, B, N, N, N, N, F, N, F, N, N, B, B, B, N, B, B, F, N, N, N, B, B, B, B, F, F, F, F, F, F, F, F, F, F, F, F, B, N, B] (
+          .block [
+            .assign 4 (.elem (.var 50)),
+            .ite (
+              .assign 12 (.var 4)) (
+              .skip),
+            .ite (
+              .skip) (
+              .block [
+                .loop [B, B, N, F, B, B, B, F, N, B, N, N, B, N, N, N, N, F, N, F, N, N, B, B, B, N, B, B, F, N, N, N, B, B, B, B, F, F, F, F, F, F, F, F, F, F, F, F, B, N, B] (
+                  .ite (
+                    .skip) (
+                    .ite (
+                      .block [
+                        .write 241 (.elem (.var 3)),
+                        .write 242 (.elem (.elem (.var 3)))]) (
+                      .skip))),
+                .ite (
+                  .skip) (
+                  .block [
+                    .ite (
+                      .block [
+                        .write 248 (.elem (.var 3)),
+                        .write 249 (.elem (.elem (.var 3)))]) (
+                      .skip),
+                    .assign 12 (.var 4)])])]),
+        .loop [B, B, N, F, B, B, B, F, N, B, N, N, B, N, N, N, N, F, N, F, N, N, B, B, B, N, B, B, F, N, N, N, B, B, B, B, F, F, F, F, F, F, F, F, F, F, F, F, B, N, B] (
+          .ite (
+            .block [
+              .write 255 (.elem (.var 3)),
+              .write 256 (.elem (.elem (.var 3)))]) (
+            .skip))]),
+    .assign 51 .scalar,
+    .assign 53 (.field (.var 0)),
+    .loop [B, B, N, F, B, B, B, F, N, B, N, N, B, N, N, N, N, F, N, F, N, N, B, B, B, N, B, B, F, N, N, N, B, B, B, B, F, F, F, F, F, F, F, F, F, F, F, F, B, N, B, B, B, B] (
+      .block [
+        .assign 52 (.elem (.var 53)),
+        .ite (
+          .assign 51 (.tuple [(.var 51), (.var 52)])) (
+          .skip)]),
+    .assign 16 (.var 51),
+    .assign 54 .scalar,
+    .assign 56 (.var 19),
+    .loop [B, B, N, F, B, B, B, F, N, B, N, N, B, N, N, N, B, F, N, F, N, N, B, B, B, N, B, B, F, N, N, N, B, B, B, B, F, F, F, F, F, F, F, F, F, F, F, F, B, N, B, B, B, B, F, F, F] (
+      .block [
+        .assign 55 (.elem (.var 56)),
+        .assign 54 (.tuple [(.var 54), (.field (.var 55))])]),
+    .assign 8 (.var 54),
+    .assign 57 (.tuple [(.var 16), (.var 8)]),
+    .loop [B, B, N, F, B, B, B, F, F, B, N, N, B, N, N, N, B, F, N, F, N, N, B, B, B, N, B, B, F, N, N, N, B, B, B, B, F, F, F, F, F, F, F, F, F, F, F, F, B, N, B, B, B, B, F, F, F, B, N, B] (
+      .block [
+        .assign 5 (.elem (.var 16)),
+        .assign 3 (.elem (.var 8)),
+        .assign 18 .scalar,
+        .assign 59 (.var 5),
+        .loop [B, B, N, F, B, B, B, F, F, B, N, N, B, N, N, N, B, F, N, F, N, N, B, B, B, N, B, B, F, N, N, N, B, B, B, B, F, F, F, F, F, F, F, F, F, F, F, F, B, N, B, B, B, B, F, F, F, B, N, B] (
+          .block [
+            .assign 4 (.elem (.var 59)),
+            .ite (
+              .skip) (
+              .ite (
+                .skip) (
+                .block [
+                  .write 277 (.elem (.var 3)),
+                  .write 278 (.elem (.elem (.var 3)))]))])]),
+    .assign 60 .scalar,
+    .assign 62 (.field (.var 0)),
+    .loop [B, B, N, F, B, B, B, F, F, B, N, N, B, N, N, N, B, F, N, F, N, N, B, B, B, N, B, B, F, N, N, N, B, B, B, B, F, F, F, F, F, F, F, F, F, F, F, F, B, N, B, B, B, B, F, F, F, B, N, B, B, B, B] (
+      .block [
+        .assign 61 (.elem (.var 62)),
+        .ite (
+          .assign 60 (.tuple [(.var 60), (.var 61)])) (
+          .skip)]),
+    .assign 11 (.var 60),
+    .assign 14 .scalar,
+    .assign 18 .scalar,
+    .assign 64 (.var 11),
+    .loop [B, B, N, F, B, B, B, F, F, B, B, B, B, B, B, N, B, F, N, F, N, N, B, B, B, N, B, B, F, N, N, N, B, B, B, B, F, F, F, F, F, F, F, F, F, F, F, F, B, N, B, B, B, B, F, F, F, B, N, B, B, B, B, N, B, B, B, B] (
+      .block [
+        .assign 10 (.elem (.var 64)),
+        .ite (
+          .block [
+            .assign 65 (.var 10),
+            .assign 14 (.tuple [(.var 14), (.var 65)])]) (
+          .skip),
+        .ite (
+          .skip) (
+          .block [
+            .loop [B, B, N, F, B, B, B, F, F, B, B, B, B, B, B, N, B, F, N, F, N, N, B, B, B, N, B, B, F, N, N, N, B, B, B, B, F, F, F, F, F, F, F, F, F, F, F, F, B, N, B, B, B, B, F, F, F, B, N, B, B, B, B, N, B, B, B, B] (
+              .ite (
+                .skip) (
+                .block [
+                  .assign 66 (.var 14),
+                  .loop [B, B, N, F, B, B, B, F, F, B, B, B, B, B, B, N, B, F, N, F, N, N, B, B, B, N, B, B, F, N, N, N, B, B, B, B, F, F, F, F, F, F, F, F, F, F, F, F, B, N, B, B, B, B, F, F, F, B, N, B, B, B, B, N, B, B, B, B] (
+                    .block [
+                      .assign 13 (.elem (.var 66)),
+                      .write 301 (.field (.elem (.var 19))),
+                      .write 303 (.elem (.field (.elem (.var 19))))])])),
+            .ite (
+              .skip) (
+              .block [
+                .ite (
+                  .block [
+                    .write 309 (.field (.elem (.var 19))),
+                    .write 310 (.elem (.field (.elem (.var 19))))]) (
+                  .skip),
+                .assign 67 (.var 10),
+                .assign 14 (.tuple [(.var 14), (.var 67)]),
+                .assign 66 (.tuple [(.var 66), (.var 67)])])])]),
+    .loop [B, B, N, F, B, B, B, F, F, B, B, B, B, B, B, N, B, F, N, F, N, N, B, B, B, N, B, B, F, N, N, N, B, B, B, B, F, F, F, F, F, F, F, F, F, F, F, F, B, N, B, B, B, B, F, F, F, B, N, B, B, B, B, N, B, B, B, B, B] (
+      .block [
+        .assign 68 (.var 14),
+        .loop [B, B, N, F, B, B, B, F, F, B, B, B, B, B, B, N, B, F, N, F, N, N, B, B, B, N, B, B, F, N, N, N, B, B, B, B, F, F, F, F, F, F, F, F, F, F, F, F, B, N, B, B, B, B, F, F, F, B, N, B, B, B, B, N, B, B, B, B, B] (
+          .block [
+            .assign 13 (.elem (.var 68)),
+            .write 319 (.field (.elem (.var 19))),
+            .write 321 (.elem (.field (.elem (.var 19))))])]),
+    .assign 69 (.tuple [(.var 19), (.var 1)]),
+    .loop [B, B, N, F, B, B, B, F, F, B, B, B, B, B, B, B, B, F, N, F, N, N, B, B, B, N, B, B, F, N, N, N, B, B, B, B, F, F, F, F, F, F, F, F, F, F, F, F, B, N, B, B, B, B, F, F, F, B, N, B, B, B, B, N, B, B, B, B, B, B] (
+      .block [
+        .assign 17 (.elem (.var 19)),
+        .assign 15 (.elem (.var 1)),
+        .write 325 (.field (.var 17)),
+        .write 326 (.field (.var 17))]),
+    .ret (.var 19)]⟩
+def ct__extract_subsequences__KU_LU_U_at_BBN : Contract := ⟨[B, B, N], F⟩
 
 /-- `split_note_sequence` (sequences_lib.py:745)  params: note_sequence, hop_size_seconds, skip_splits_inside_notes
 variables: 0=note_sequence 1=hop_size_seconds 2=skip_splits_inside_notes 3=note_idx 4=notes_by_start_time 5=notes_crossing_split 6=split_time 7=split_times 8=valid_split_times 9=note@key774 10=%it786_20 11=_acc792 12=note@792 13=%it792_25 14=_r804
@@ -342,10 +816,246 @@ def op_split_note_sequence (ix : Nat → Nat) : OpDef := ⟨"split_note_sequence
           .skip)]),
     .ite (
       .block [
-        .callOp 804 14 (ix 2) [(.var 0), (.var 8), .scalar],
+        .callOp 804 14 (ix 5) [(.var 0), (.var 8), .scalar],
         .ret (.var 14)]) (
       .ret .scalar)]⟩
 def ct_split_note_sequence : Contract := ⟨[B, B, B], F⟩
+
+/-- `_extract_subsequences__KU_LS_U@BNN` (sequences_lib.py:134)  params: sequence, split_times, preserve_control_numbers
+variables: 0=sequence 1=split_times 2=preserve_control_numbers 3=containers 4=event 5=events 6=events_by_type 7=new_event_containers 8=new_stateless_event_containers 9=note 10=pedal_event 11=pedal_events 12=previous_event 13=previous_pedal_event 14=previous_pedal_events 15=start_time 16=stateless_events_by_type 17=subsequence 18=subsequence_index 19=subsequences 20=_r159 21=_acc165 22=t1@165 23=t2@165 24=%it165_31 25=_acc167 26=time@167 27=%it167_49 28=_acc186 29=_@186 30=%it186_42 31=note@key192 32=%it192_14 33=_acc217 34=annotation@217 35=%it217_39 36=_acc222 37=s@222 38=%it222_54 39=_acc223 40=s@223 41=%it223_53 42=_acc224 43=s@224 44=%it224_45 45=_acc225 46=s@225 47=%it225_55 48=%it227_28 49=event@key230 50=%it230_17 51=_acc261 52=annotation@261 53=%it261_35 54=_acc265 55=s@265 56=%it265_65 57=%it266_28 58=event@key269 59=%it269_17 60=_acc283 61=cc@283 62=%it283_19 63=event@key289 64=%it289_21 65=_t291 66=%it300_34 67=_t312 68=%it318_32 69=%it324_33
+-/
+def op__extract_subsequences__KU_LS_U_at_BNN (ix : Nat → Nat) : OpDef := ⟨"_extract_subsequences__KU_LS_U@BNN", 3,
+  .block [
+    .assign 0 (.param 0),
+    .assign 1 (.param 1),
+    .assign 2 (.param 2),
+    .callOp 159 20 (ix 0) [(.var 0)],
+    .ite (
+      .raise) (
+      .skip),
+    .ite (
+      .raise) (
+      .skip),
+    .assign 21 .scalar,
+    .assign 24 (.tuple [(.var 1), (.var 1)]),
+    .loop [B, N, N, N, N, N, N, N, N, N, N, N, N, N, N, N, N, N, N, N, N, N, N, N, N] (
+      .block [
+        .assign 22 (.elem (.var 1)),
+        .assign 23 (.elem (.var 1))]),
+    .ite (
+      .raise) (
+      .skip),
+    .assign 25 .scalar,
+    .assign 27 (.var 1),
+    .loop [B, N, N, N, N, N, N, N, N, N, N, N, N, N, N, N, N, N, N, N, N, N, N, N, N, N, N, N] (
+      .assign 26 (.elem (.var 27))),
+    .ite (
+      .raise) (
+      .skip),
+    .ite (
+      .assign 2 .scalar) (
+      .skip),
+    .assign 17 .fresh,
+    .write 174 (.var 17),
+    .write 176 (.var 17),
+    .write 178 (.field (.var 17)),
+    .write 179 (.field (.var 17)),
+    .write 180 (.field (.var 17)),
+    .write 181 (.field (.var 17)),
+    .write 182 (.field (.var 17)),
+    .write 183 (.field (.var 17)),
+    .write 184 (.field (.var 17)),
+    .assign 28 .scalar,
+    .assign 30 .scalar,
+    .loop [B, N, N, N, N, N, N, N, N, N, N, N, N, N, N, N, N, F, N, N, N, N, N, N, N, N, N, N, F, N, N] (
+      .block [
+        .assign 29 (.elem (.var 30)),
+        .assign 28 (.tuple [(.var 28), (.copyOf (.var 17))])]),
+    .assign 19 (.var 28),
+    .assign 18 .scalar,
+    .assign 32 (.field (.var 0)),
+    .loop [B, N, N, N, N, N, N, N, N, B, N, N, N, N, N, N, N, F, N, F, N, N, N, N, N, N, N, N, F, N, N, N, B] (
+      .block [
+        .assign 9 (.elem (.var 32)),
+        .ite (
+          .skip) (
+          .ite (
+            .skip) (
+            .block [
+              .write 200 (.field (.elem (.var 19))),
+              .write 201 (.elem (.field (.elem (.var 19)))),
+              .write 203 (.elem (.field (.elem (.var 19)))),
+              .ite (
+                .write 208 (.elem (.var 19))) (
+                .skip)]))]),
+    .assign 33 .scalar,
+    .assign 35 (.field (.var 0)),
+    .loop [B, N, N, N, N, N, N, N, N, B, N, N, N, N, N, N, N, F, N, F, N, N, N, N, N, N, N, N, F, N, N, N, B, B, B, B] (
+      .block [
+        .assign 34 (.elem (.var 35)),
+        .ite (
+          .assign 33 (.tuple [(.var 33), (.var 34)])) (
+          .skip)]),
+    .assign 6 (.tuple [(.field (.var 0)), (.field (.var 0)), (.field (.var 0)), (.var 33)]),
+    .assign 36 .scalar,
+    .assign 38 (.var 19),
+    .loop [B, N, N, N, N, N, B, N, N, B, N, N, N, N, N, N, N, F, N, F, N, N, N, N, N, N, N, N, F, N, N, N, B, B, B, B, F, F, F] (
+      .block [
+        .assign 37 (.elem (.var 38)),
+        .assign 36 (.tuple [(.var 36), (.field (.var 37))])]),
+    .assign 39 .scalar,
+    .assign 41 (.var 19),
+    .loop [B, N, N, N, N, N, B, N, N, B, N, N, N, N, N, N, N, F, N, F, N, N, N, N, N, N, N, N, F, N, N, N, B, B, B, B, F, F, F, F, F, F] (
+      .block [
+        .assign 40 (.elem (.var 41)),
+        .assign 39 (.tuple [(.var 39), (.field (.var 40))])]),
+    .assign 42 .scalar,
+    .assign 44 (.var 19),
+    .loop [B, N, N, N, N, N, B, N, N, B, N, N, N, N, N, N, N, F, N, F, N, N, N, N, N, N, N, N, F, N, N, N, B, B, B, B, F, F, F, F, F, F, F, F, F] (
+      .block [
+        .assign 43 (.elem (.var 44)),
+        .assign 42 (.tuple [(.var 42), (.field (.var 43))])]),
+    .assign 45 .scalar,
+    .assign 47 (.var 19),
+    .loop [B, N, N, N, N, N, B, N, N, B, N, N, N, N, N, N, N, F, N, F, N, N, N, N, N, N, N, N, F, N, N, N, B, B, B, B, F, F, F, F, F, F, F, F, F, F, F, F] (
+      .block [
+        .assign 46 (.elem (.var 47)),
+        .assign 45 (.tuple [(.var 45), (.field (.var 46))])]),
+    .assign 7 (.tuple [(.var 36), (.var 39), (.var 42), (.var 45)]),
+    .assign 48 (.tuple [(.var 6), (.var 7)]),
+    .loop [B, N, N, F, B, B, B, F, N, B, N, N, B, N, N, N, N, F, N, F, N, N, N, N, N, N, N, N, F, N, N, N, B, B, B, B, F, F, F, F, F, F, F, F, F, F, F, F, B, N, B] (
+      .block [
+        .assign 5 (.elem (.var 6)),
+        .assign 3 (.elem (.var 7)),
+        .assign 12 .scalar,
+        .assign 18 .scalar,
+        .assign 50 (.var 5),
+        .loop [B, N, N, F, B, B, B, F, N, B, N, N, B, N, N, N, N, F, N, F, N, N, N, N, N, N, N, N, F, N, N, N, B, B, B, B, F, F, F, F, F, F, F, F, F, F, F, F, B, N, B] (
+          .block [
+            .assign 4 (.elem (.var 50)),
+            .ite (
+              .assign 12 (.var 4)) (
+              .skip),
+            .ite (
+              .skip) (
+              .block [
+                .loop [B, N, N, F, B, B, B, F, N, B, N, N, B, N, N, N, N, F, N, F, N, N, N, N, N, N, N, N, F, N, N, N, B, B, B, B, F, F, F, F, F, F, F, F, F, F, F, F, B, N, B] (
+                  .ite (
+                    .skip) (
+                    .ite (
+                      .block [
+                        .write 241 (.elem (.var 3)),
+                        .write 242 (.elem (.elem (.var 3)))]) (
+                      .skip))),
+                .ite (
+                  .skip) (
+                  .block [
+                    .ite (
+                      .block [
+                        .write 248 (.elem (.var 3)),
+                        .write 249 (.elem (.elem (.var 3)))]) (
+                      .skip),
+                    .assign 12 (.var 4)])])]),
+        .loop [B, N, N, F, B, B, B, F, N, B, N, N, B, N, N, N, N, F, N, F, N, N, N, N, N, N, N, N, F, N, N, N, B, B, B, B, F, F, F, F, F, F, F, F, F, F, F, F, B, N, B] (
+          .ite (
+            .block [
+              .write 255 (.elem (.var 3)),
+              .write 256 (.elem (.elem (.var 3)))]) (
+            .skip))]),
+    .assign 51 .scalar,
+    .assign 53 (.field (.var 0)),
+    .loop [B, N, N, F, B, B, B, F, N, B, N, N, B, N, N, N, N, F, N, F, N, N, N, N, N, N, N, N, F, N, N, N, B, B, B, B, F, F, F, F, F, F, F, F, F, F, F, F, B, N, B, B, B, B] (
+      .block [
+        .assign 52 (.elem (.var 53)),
+        .ite (
+          .assign 51 (.tuple [(.var 51), (.var 52)])) (
+          .skip)]),
+    .assign 16 (.var 51),
+    .assign 54 .scalar,
+    .assign 56 (.var 19),
+    .loop [B, N, N, F, B, B, B, F, N, B, N, N, B, N, N, N, B, F, N, F, N, N, N, N, N, N, N, N, F, N, N, N, B, B, B, B, F, F, F, F, F, F, F, F, F, F, F, F, B, N, B, B, B, B, F, F, F] (
+      .block [
+        .assign 55 (.elem (.var 56)),
+        .assign 54 (.tuple [(.var 54), (.field (.var 55))])]),
+    .assign 8 (.var 54),
+    .assign 57 (.tuple [(.var 16), (.var 8)]),
+    .loop [B, N, N, F, B, B, B, F, F, B, N, N, B, N, N, N, B, F, N, F, N, N, N, N, N, N, N, N, F, N, N, N, B, B, B, B, F, F, F, F, F, F, F, F, F, F, F, F, B, N, B, B, B, B, F, F, F, B, N, B] (
+      .block [
+        .assign 5 (.elem (.var 16)),
+        .assign 3 (.elem (.var 8)),
+        .assign 18 .scalar,
+        .assign 59 (.var 5),
+        .loop [B, N, N, F, B, B, B, F, F, B, N, N, B, N, N, N, B, F, N, F, N, N, N, N, N, N, N, N, F, N, N, N, B, B, B, B, F, F, F, F, F, F, F, F, F, F, F, F, B, N, B, B, B, B, F, F, F, B, N, B] (
+          .block [
+            .assign 4 (.elem (.var 59)),
+            .ite (
+              .skip) (
+              .ite (
+                .skip) (
+                .block [
+                  .write 277 (.elem (.var 3)),
+                  .write 278 (.elem (.elem (.var 3)))]))])]),
+    .assign 60 .scalar,
+    .assign 62 (.field (.var 0)),
+    .loop [B, N, N, F, B, B, B, F, F, B, N, N, B, N, N, N, B, F, N, F, N, N, N, N, N, N, N, N, F, N, N, N, B, B, B, B, F, F, F, F, F, F, F, F, F, F, F, F, B, N, B, B, B, B, F, F, F, B, N, B, B, B, B] (
+      .block [
+        .assign 61 (.elem (.var 62)),
+        .ite (
+          .assign 60 (.tuple [(.var 60), (.var 61)])) (
+          .skip)]),
+    .assign 11 (.var 60),
+    .assign 14 .scalar,
+    .assign 18 .scalar,
+    .assign 64 (.var 11),
+    .loop [B, N, N, F, B, B, B, F, F, B, B, B, B, B, B, N, B, F, N, F, N, N, N, N, N, N, N, N, F, N, N, N, B, B, B, B, F, F, F, F, F, F, F, F, F, F, F, F, B, N, B, B, B, B, F, F, F, B, N, B, B, B, B, N, B, B, B, B] (
+      .block [
+        .assign 10 (.elem (.var 64)),
+        .ite (
+          .block [
+            .assign 65 (.var 10),
+            .assign 14 (.tuple [(.var 14), (.var 65)])]) (
+          .skip),
+        .ite (
+          .skip) (
+          .block [
+            .loop [B, N, N, F, B, B, B, F, F, B, B, B, B, B, B, N, B, F, N, F, N, N, N, N, N, N, N, N, F, N, N, N, B, B, B, B, F, F, F, F, F, F, F, F, F, F, F, F, B, N, B, B, B, B, F, F, F, B, N, B, B, B, B, N, B, B, B, B] (
+              .ite (
+                .skip) (
+                .block [
+                  .assign 66 (.var 14),
+                  .loop [B, N, N, F, B, B, B, F, F, B, B, B, B, B, B, N, B, F, N, F, N, N, N, N, N, N, N, N, F, N, N, N, B, B, B, B, F, F, F, F, F, F, F, F, F, F, F, F, B, N, B, B, B, B, F, F, F, B, N, B, B, B, B, N, B, B, B, B] (
+                    .block [
+                      .assign 13 (.elem (.var 66)),
+                      .write 301 (.field (.elem (.var 19))),
+                      .write 303 (.elem (.field (.elem (.var 19))))])])),
+            .ite (
+              .skip) (
+              .block [
+                .ite (
+                  .block [
+                    .write 309 (.field (.elem (.var 19))),
+                    .write 310 (.elem (.field (.elem (.var 19))))]) (
+                  .skip),
+                .assign 67 (.var 10),
+                .assign 14 (.tuple [(.var 14), (.var 67)]),
+                .assign 66 (.tuple [(.var 66), (.var 67)])])])]),
+    .loop [B, N, N, F, B, B, B, F, F, B, B, B, B, B, B, N, B, F, N, F, N, N, N, N, N, N, N, N, F, N, N, N, B, B, B, B, F, F, F, F, F, F, F, F, F, F, F, F, B, N, B, B, B, B, F, F, F, B, N, B, B, B, B, N, B, B, B, B, B] (
+      .block [
+        .assign 68 (.var 14),
+        .loop [B, N, N, F, B, B, B, F, F, B, B, B, B, B, B, N, B, F, N, F, N, N, N, N, N, N, N, N, F, N, N, N, B, B, B, B, F, F, F, F, F, F, F, F, F, F, F, F, B, N, B, B, B, B, F, F, F, B, N, B, B, B, B, N, B, B, B, B, B] (
+          .block [
+            .assign 13 (.elem (.var 68)),
+            .write 319 (.field (.elem (.var 19))),
+            .write 321 (.elem (.field (.elem (.var 19))))])]),
+    .assign 69 (.tuple [(.var 19), (.var 1)]),
+    .loop [B, N, N, F, B, B, B, F, F, B, B, B, B, B, B, N, B, F, N, F, N, N, N, N, N, N, N, N, F, N, N, N, B, B, B, B, F, F, F, F, F, F, F, F, F, F, F, F, B, N, B, B, B, B, F, F, F, B, N, B, B, B, B, N, B, B, B, B, B, F] (
+      .block [
+        .assign 17 (.elem (.var 19)),
+        .assign 15 (.elem (.var 1)),
+        .write 325 (.field (.var 17)),
+        .write 326 (.field (.var 17))]),
+    .ret (.var 19)]⟩
+def ct__extract_subsequences__KU_LS_U_at_BNN : Contract := ⟨[B, N, N], F⟩
 
 /-- `split_note_sequence_on_time_changes` (sequences_lib.py:809)  params: note_sequence, skip_splits_inside_notes
 variables: 0=note_sequence 1=skip_splits_inside_notes 2=current_denominator 3=current_numerator 4=current_qpm 5=note_idx 6=notes_by_start_time 7=notes_crossing_split 8=time_change 9=time_signatures_and_tempos 10=valid_split_times 11=t@key834 12=_acc835 13=t@835 14=%it835_17 15=note@key840 16=%it846_21 17=_acc862 18=note@862 19=%it862_25 20=_r883
@@ -398,7 +1108,7 @@ def op_split_note_sequence_on_time_changes (ix : Nat → Nat) : OpDef := ⟨"spl
               .assign 4 .scalar)])]),
     .ite (
       .block [
-        .callOp 883 20 (ix 2) [(.var 0), (.var 10), .scalar],
+        .callOp 883 20 (ix 7) [(.var 0), (.var 10), .scalar],
         .ret (.var 20)]) (
       .ret .scalar)]⟩
 def ct_split_note_sequence_on_time_changes : Contract := ⟨[B, B], F⟩
@@ -420,7 +1130,7 @@ def op_split_note_sequence_on_silence (ix : Nat → Nat) : OpDef := ⟨"split_no
         .assign 2 (.var 2)]),
     .ite (
       .block [
-        .callOp 918 8 (ix 2) [(.var 0), (.var 5), .scalar],
+        .callOp 918 8 (ix 7) [(.var 0), (.var 5), .scalar],
         .ret (.var 8)]) (
       .ret .scalar)]⟩
 def ct_split_note_sequence_on_silence : Contract := ⟨[B, B], F⟩
@@ -496,15 +1206,24 @@ def op_stretch_note_sequence (ix : Nat → Nat) : OpDef := ⟨"stretch_note_sequ
     .ret (.var 6)]⟩
 def ct_stretch_note_sequence : Contract := ⟨[B, B, B], F⟩
 
-/-- `stretch_note_sequence__in_place` (sequences_lib.py:1329)  params: note_sequence, stretch_factor, in_place
+/-- `is_quantized_sequence@F` (sequences_lib.py:637)  params: note_sequence
+variables: 0=note_sequence
+-/
+def op_is_quantized_sequence_at_F (ix : Nat → Nat) : OpDef := ⟨"is_quantized_sequence@F", 1,
+  .block [
+    .assign 0 (.param 0),
+    .ret .scalar]⟩
+def ct_is_quantized_sequence_at_F : Contract := ⟨[F], N⟩
+
+/-- `stretch_note_sequence__in_place@FBB` (sequences_lib.py:1329)  params: note_sequence, stretch_factor, in_place
 variables: 0=note_sequence 1=stretch_factor 2=in_place 3=event 4=events 5=note 6=stretched_sequence 7=tempo 8=_r1347 9=%it1361_14 10=%it1372_15 11=%it1376_15
 -/
-def op_stretch_note_sequence__in_place (ix : Nat → Nat) : OpDef := ⟨"stretch_note_sequence__in_place", 3,
+def op_stretch_note_sequence__in_place_at_FBB (ix : Nat → Nat) : OpDef := ⟨"stretch_note_sequence__in_place@FBB", 3,
   .block [
     .assign 0 (.param 0),
     .assign 1 (.param 1),
     .assign 2 .scalar,
-    .callOp 1347 8 (ix 0) [(.var 0)],
+    .callOp 1347 8 (ix 12) [(.var 0)],
     .ite (
       .raise) (
       .skip),
@@ -531,7 +1250,7 @@ def op_stretch_note_sequence__in_place (ix : Nat → Nat) : OpDef := ⟨"stretch
         .assign 7 (.elem (.var 11)),
         .write 1377 (.var 7)]),
     .ret (.var 6)]⟩
-def ct_stretch_note_sequence__in_place : Contract := ⟨[F, B, B], F⟩
+def ct_stretch_note_sequence__in_place_at_FBB : Contract := ⟨[F, B, B], F⟩
 
 /-- `transpose_note_sequence` (sequences_lib.py:1139)  params: ns, amount, min_allowed_pitch, max_allowed_pitch, transpose_chords, in_place
 variables: 0=ns 1=amount 2=min_allowed_pitch 3=max_allowed_pitch 4=transpose_chords 5=in_place 6=deleted_note_count 7=end_time 8=ks 9=new_note_list 10=new_ns 11=new_pitch 12=note 13=ta 14=text_annotations_to_keep 15=%it1173_14 16=%it1198_14 17=%it1204_14 18=%it1212_12
@@ -602,10 +1321,10 @@ def op_transpose_note_sequence (ix : Nat → Nat) : OpDef := ⟨"transpose_note_
     .ret (.tuple [(.var 0), (.var 6)])]⟩
 def ct_transpose_note_sequence : Contract := ⟨[B, B, B, B, B, B], F⟩
 
-/-- `transpose_note_sequence__in_place` (sequences_lib.py:1139)  params: ns, amount, min_allowed_pitch, max_allowed_pitch, transpose_chords, in_place
+/-- `transpose_note_sequence__in_place@FBBBBB` (sequences_lib.py:1139)  params: ns, amount, min_allowed_pitch, max_allowed_pitch, transpose_chords, in_place
 variables: 0=ns 1=amount 2=min_allowed_pitch 3=max_allowed_pitch 4=transpose_chords 5=in_place 6=deleted_note_count 7=end_time 8=ks 9=new_note_list 10=new_ns 11=new_pitch 12=note 13=ta 14=text_annotations_to_keep 15=%it1173_14 16=%it1198_14 17=%it1204_14 18=%it1212_12
 -/
-def op_transpose_note_sequence__in_place (ix : Nat → Nat) : OpDef := ⟨"transpose_note_sequence__in_place", 6,
+def op_transpose_note_sequence__in_place_at_FBBBBB (ix : Nat → Nat) : OpDef := ⟨"transpose_note_sequence__in_place@FBBBBB", 6,
   .block [
     .assign 0 (.param 0),
     .assign 1 (.param 1),
@@ -666,24 +1385,24 @@ def op_transpose_note_sequence__in_place (ix : Nat → Nat) : OpDef := ⟨"trans
         .assign 8 (.elem (.var 18)),
         .write 1213 (.var 8)]),
     .ret (.tuple [(.var 0), (.var 6)])]⟩
-def ct_transpose_note_sequence__in_place : Contract := ⟨[F, B, B, B, B, B], F⟩
+def ct_transpose_note_sequence__in_place_at_FBBBBB : Contract := ⟨[F, B, B, B, B, B], F⟩
 
-/-- `quantize_to_step` (sequences_lib.py:923)  params: unquantized_seconds, steps_per_second, quantize_cutoff
+/-- `quantize_to_step__KS_U_U@NBN` (sequences_lib.py:923)  params: unquantized_seconds, steps_per_second, quantize_cutoff
 variables: 0=unquantized_seconds 1=steps_per_second 2=quantize_cutoff 3=unquantized_steps
 -/
-def op_quantize_to_step (ix : Nat → Nat) : OpDef := ⟨"quantize_to_step", 3,
+def op_quantize_to_step__KS_U_U_at_NBN (ix : Nat → Nat) : OpDef := ⟨"quantize_to_step__KS_U_U@NBN", 3,
   .block [
     .assign 0 (.param 0),
     .assign 1 (.param 1),
     .assign 2 (.param 2),
     .assign 3 (.tuple [(.var 0), (.var 1)]),
     .ret .scalar]⟩
-def ct_quantize_to_step : Contract := ⟨[B, B, B], N⟩
+def ct_quantize_to_step__KS_U_U_at_NBN : Contract := ⟨[N, B, N], N⟩
 
-/-- `_quantize_notes` (sequences_lib.py:948)  params: note_sequence, steps_per_second
+/-- `_quantize_notes@FB` (sequences_lib.py:948)  params: note_sequence, steps_per_second
 variables: 0=note_sequence 1=steps_per_second 2=event 3=note 4=%it965_14 5=_r967 6=_r969 7=%it984_15 8=_r987
 -/
-def op__quantize_notes (ix : Nat → Nat) : OpDef := ⟨"_quantize_notes", 2,
+def op__quantize_notes_at_FB (ix : Nat → Nat) : OpDef := ⟨"_quantize_notes@FB", 2,
   .block [
     .assign 0 (.param 0),
     .assign 1 (.param 1),
@@ -691,9 +1410,9 @@ def op__quantize_notes (ix : Nat → Nat) : OpDef := ⟨"_quantize_notes", 2,
     .loop [F, B, N, F, F, N, N] (
       .block [
         .assign 3 (.elem (.var 4)),
-        .callOp 967 5 (ix 12) [.scalar, (.var 1), .scalar],
+        .callOp 967 5 (ix 16) [.scalar, (.var 1), .scalar],
         .write 967 (.var 3),
-        .callOp 969 6 (ix 12) [.scalar, (.var 1), .scalar],
+        .callOp 969 6 (ix 16) [.scalar, (.var 1), .scalar],
         .write 969 (.var 3),
         .ite (
           .write 971 (.var 3)) (
@@ -708,31 +1427,31 @@ def op__quantize_notes (ix : Nat → Nat) : OpDef := ⟨"_quantize_notes", 2,
     .loop [F, B, F, F, F, N, N, F, N] (
       .block [
         .assign 2 (.elem (.var 7)),
-        .callOp 987 8 (ix 12) [.scalar, (.var 1), .scalar],
+        .callOp 987 8 (ix 16) [.scalar, (.var 1), .scalar],
         .write 987 (.var 2),
         .ite (
           .raise) (
           .skip)])]⟩
-def ct__quantize_notes : Contract := ⟨[F, B], N⟩
+def ct__quantize_notes_at_FB : Contract := ⟨[F, B], N⟩
 
-/-- `_is_power_of_2` (sequences_lib.py:633)  params: x
+/-- `_is_power_of_2__KS@N` (sequences_lib.py:633)  params: x
 variables: 0=x
 -/
-def op__is_power_of_2 (ix : Nat → Nat) : OpDef := ⟨"_is_power_of_2", 1,
+def op__is_power_of_2__KS_at_N (ix : Nat → Nat) : OpDef := ⟨"_is_power_of_2__KS@N", 1,
   .block [
     .assign 0 (.param 0),
     .ret (.var 0)]⟩
-def ct__is_power_of_2 : Contract := ⟨[B], B⟩
+def ct__is_power_of_2__KS_at_N : Contract := ⟨[N], N⟩
 
-/-- `steps_per_quarter_to_steps_per_second` (sequences_lib.py:943)  params: steps_per_quarter, qpm
+/-- `steps_per_quarter_to_steps_per_second__KU_S@BN` (sequences_lib.py:943)  params: steps_per_quarter, qpm
 variables: 0=steps_per_quarter 1=qpm
 -/
-def op_steps_per_quarter_to_steps_per_second (ix : Nat → Nat) : OpDef := ⟨"steps_per_quarter_to_steps_per_second", 2,
+def op_steps_per_quarter_to_steps_per_second__KU_S_at_BN (ix : Nat → Nat) : OpDef := ⟨"steps_per_quarter_to_steps_per_second__KU_S@BN", 2,
   .block [
     .assign 0 (.param 0),
     .assign 1 (.param 1),
     .ret (.tuple [(.var 0), (.var 1)])]⟩
-def ct_steps_per_quarter_to_steps_per_second : Contract := ⟨[B, B], B⟩
+def ct_steps_per_quarter_to_steps_per_second__KU_S_at_BN : Contract := ⟨[B, N], B⟩
 
 /-- `quantize_note_sequence` (sequences_lib.py:993)  params: note_sequence, steps_per_quarter
 variables: 0=note_sequence 1=steps_per_quarter 2=qns 3=steps_per_second 4=tempo 5=tempos 6=time_signature 7=time_signatures 8=ts@key1026 9=%it1039_26 10=_r1059 11=t@key1070 12=%it1081_17 13=_r1096 14=_r1099 15=_r1100
@@ -764,7 +1483,7 @@ def op_quantize_note_sequence (ix : Nat → Nat) : OpDef := ⟨"quantize_note_se
         .write 1055 (.var 6),
         .write 1056 (.var 6),
         .write 1057 (.var 6)]),
-    .callOp 1059 10 (ix 14) [.scalar],
+    .callOp 1059 10 (ix 18) [.scalar],
     .ite (
       .raise) (
       .skip),
@@ -778,7 +1497,7 @@ def op_quantize_note_sequence (ix : Nat → Nat) : OpDef := ⟨"quantize_note_se
           .raise) (
           .skip),
         .assign 12 (.var 5),
-        .loop [B, B, F, N, F, F, F, F, N, F, B, N, F] (
+        .loop [B, B, F, N, F, F, F, F, N, F, N, N, F] (
           .block [
             .assign 4 (.elem (.var 12)),
             .ite (
@@ -791,11 +1510,11 @@ def op_quantize_note_sequence (ix : Nat → Nat) : OpDef := ⟨"quantize_note_se
         .assign 4 (.elem (.field (.var 2))),
         .write 1092 (.var 4),
         .write 1093 (.var 4)]),
-    .callOp 1096 13 (ix 15) [(.var 1), .scalar],
+    .callOp 1096 13 (ix 19) [(.var 1), .scalar],
     .assign 3 (.var 13),
-    .callOp 1099 14 (ix 12) [.scalar, (.var 3), .scalar],
+    .callOp 1099 14 (ix 16) [.scalar, (.var 3), .scalar],
     .write 1099 (.var 2),
-    .callOp 1100 15 (ix 13) [(.var 2), (.var 3)],
+    .callOp 1100 15 (ix 17) [(.var 2), (.var 3)],
     .ret (.var 2)]⟩
 def ct_quantize_note_sequence : Contract := ⟨[B, B], F⟩
 
@@ -808,9 +1527,9 @@ def op_quantize_note_sequence_absolute (ix : Nat → Nat) : OpDef := ⟨"quantiz
     .assign 1 (.param 1),
     .assign 2 (.copyOf (.var 0)),
     .write 1131 (.field (.var 2)),
-    .callOp 1133 3 (ix 12) [.scalar, (.var 1), .scalar],
+    .callOp 1133 3 (ix 16) [.scalar, (.var 1), .scalar],
     .write 1133 (.var 2),
-    .callOp 1134 4 (ix 13) [(.var 2), (.var 1)],
+    .callOp 1134 4 (ix 17) [(.var 2), (.var 1)],
     .ret (.var 2)]⟩
 def ct_quantize_note_sequence_absolute : Contract := ⟨[B, B], F⟩
 
@@ -1004,6 +1723,575 @@ def op_apply_sustain_control_changes (ix : Nat → Nat) : OpDef := ⟨"apply_sus
     .ret (.var 10)]⟩
 def ct_apply_sustain_control_changes : Contract := ⟨[B, B], F⟩
 
+/-- `remove_redundant_data__KP@F` (sequences_lib.py:421)  params: sequence
+variables: 0=sequence 1=added_composer 2=added_genre 3=composer 4=events 5=fixed_sequence 6=genre 7=i 8=tmp_ts 9=%it439_16 10=e@key443 11=%it444_13 12=%it456_20 13=%it463_17
+-/
+def op_remove_redundant_data__KP_at_F (ix : Nat → Nat) : OpDef := ⟨"remove_redundant_data__KP@F", 1,
+  .block [
+    .assign 0 (.param 0),
+    .assign 5 (.copyOf (.var 0)),
+    .assign 9 (.tuple [(.field (.var 5)), (.field (.var 5)), (.field (.var 5))]),
+    .loop [F, N, N, N, F, F, N, N, F, F, N, N] (
+      .block [
+        .assign 4 (.elem (.var 9)),
+        .write 443 (.var 4),
+        .assign 11 .scalar,
+        .loop [F, N, N, N, F, F, N, N, F, F, N, N] (
+          .block [
+            .assign 7 (.elem (.var 11)),
+            .assign 8 (.copyOf (.elem (.var 4))),
+            .write 446 (.var 8),
+            .ite (
+              .write 450 (.var 4)) (
+              .skip)])]),
+    .ite (
+      .block [
+        .write 454 (.field (.field (.var 5))),
+        .assign 1 .scalar,
+        .assign 12 (.field (.field (.var 0))),
+        .loop [F, F, N, F, F, F, N, N, F, F, N, N, F] (
+          .block [
+            .assign 3 (.elem (.var 12)),
+            .ite (
+              .block [
+                .write 458 (.field (.field (.var 5))),
+                .assign 1 (.tuple [(.var 1), (.var 3)])]) (
+              .skip)]),
+        .write 461 (.field (.field (.var 5))),
+        .assign 2 .scalar,
+        .assign 13 (.field (.field (.var 0))),
+        .loop [F, F, F, F, F, F, F, N, F, F, N, N, F, F] (
+          .block [
+            .assign 6 (.elem (.var 13)),
+            .ite (
+              .block [
+                .write 465 (.field (.field (.var 5))),
+                .assign 2 (.tuple [(.var 2), (.var 6)])]) (
+              .skip)])]) (
+      .skip),
+    .ret (.var 5)]⟩
+def ct_remove_redundant_data__KP_at_F : Contract := ⟨[F], F⟩
+
+/-- `concatenate_sequences` (sequences_lib.py:471)  params: sequences, sequence_durations
+variables: 0=sequences 1=sequence_durations 2=cat_seq 3=current_total_time 4=i 5=sequence 6=%it499_11 7=_r507 8=_r519
+-/
+def op_concatenate_sequences (ix : Nat → Nat) : OpDef := ⟨"concatenate_sequences", 2,
+  .block [
+    .assign 0 (.param 0),
+    .assign 1 (.param 1),
+    .ite (
+      .raise) (
+      .skip),
+    .assign 3 .scalar,
+    .assign 2 .fresh,
+    .assign 6 .scalar,
+    .loop [B, B, F, B, N, B, N, F] (
+      .block [
+        .assign 4 (.elem (.var 6)),
+        .assign 5 (.elem (.var 0)),
+        .ite (
+          .raise) (
+          .skip),
+        .ite (
+          .block [
+            .callOp 507 7 (ix 10) [(.var 5), (.var 3)],
+            .write 507 (.var 2)]) (
+          .write 509 (.var 2)),
+        .ite (
+          .block [
+            .assign 1 (.tuple [(.var 1), (.elem (.var 1))]),
+            .assign 3 (.tuple [(.var 3), (.elem (.var 1))])]) (
+          .assign 3 .scalar)]),
+    .write 517 (.var 2),
+    .callOp 519 8 (ix 23) [(.var 2)],
+    .ret (.var 8)]⟩
+def ct_concatenate_sequences : Contract := ⟨[B, B], F⟩
+
+/-- `merge_sequences` (sequences_lib.py:522)  params: sequences
+variables: 0=sequences 1=cat_seq 2=seq 3=%it542_13 4=_acc548 5=seq@548 6=%it548_55 7=_r552
+-/
+def op_merge_sequences (ix : Nat → Nat) : OpDef := ⟨"merge_sequences", 1,
+  .block [
+    .assign 0 (.param 0),
+    .assign 1 .fresh,
+    .assign 3 (.var 0),
+    .loop [B, F, B, B] (
+      .block [
+        .assign 2 (.elem (.var 3)),
+        .write 543 (.var 1)]),
+    .ite (
+      .block [
+        .assign 4 .scalar,
+        .assign 6 (.var 0),
+        .loop [B, F, B, B, N, B, B] (
+          .assign 5 (.elem (.var 6))),
+        .write 548 (.var 1)]) (
+      .skip),
+    .write 551 (.var 1),
+    .callOp 552 7 (ix 23) [(.var 1)],
+    .ret (.var 7)]⟩
+def ct_merge_sequences : Contract := ⟨[B], F⟩
+
+/-- `concatenate_sequences__KLU_LU` (sequences_lib.py:471)  params: sequences, sequence_durations
+variables: 0=sequences 1=sequence_durations 2=cat_seq 3=current_total_time 4=i 5=sequence 6=%it499_11 7=_r507 8=_r519
+-/
+def op_concatenate_sequences__KLU_LU (ix : Nat → Nat) : OpDef := ⟨"concatenate_sequences__KLU_LU", 2,
+  .block [
+    .assign 0 (.param 0),
+    .assign 1 (.param 1),
+    .ite (
+      .raise) (
+      .skip),
+    .assign 3 .scalar,
+    .assign 2 .fresh,
+    .assign 6 .scalar,
+    .loop [B, B, F, B, N, B, N, F] (
+      .block [
+        .assign 4 (.elem (.var 6)),
+        .assign 5 (.elem (.var 0)),
+        .ite (
+          .raise) (
+          .skip),
+        .ite (
+          .block [
+            .callOp 507 7 (ix 10) [(.var 5), (.var 3)],
+            .write 507 (.var 2)]) (
+          .write 509 (.var 2)),
+        .ite (
+          .block [
+            .assign 1 (.tuple [(.var 1), (.elem (.var 1))]),
+            .assign 3 (.tuple [(.var 3), (.elem (.var 1))])]) (
+          .assign 3 .scalar)]),
+    .write 517 (.var 2),
+    .callOp 519 8 (ix 23) [(.var 2)],
+    .ret (.var 8)]⟩
+def ct_concatenate_sequences__KLU_LU : Contract := ⟨[B, B], F⟩
+
+/-- `_extract_subsequences__KU_LU_U@FBN` (sequences_lib.py:134)  params: sequence, split_times, preserve_control_numbers
+variables: 0=sequence 1=split_times 2=preserve_control_numbers 3=containers 4=event 5=events 6=events_by_type 7=new_event_containers 8=new_stateless_event_containers 9=note 10=pedal_event 11=pedal_events 12=previous_event 13=previous_pedal_event 14=previous_pedal_events 15=start_time 16=stateless_events_by_type 17=subsequence 18=subsequence_index 19=subsequences 20=_r159 21=_acc165 22=t1@165 23=t2@165 24=%it165_31 25=_acc167 26=time@167 27=%it167_49 28=_acc186 29=_@186 30=%it186_42 31=note@key192 32=%it192_14 33=_acc217 34=annotation@217 35=%it217_39 36=_acc222 37=s@222 38=%it222_54 39=_acc223 40=s@223 41=%it223_53 42=_acc224 43=s@224 44=%it224_45 45=_acc225 46=s@225 47=%it225_55 48=%it227_28 49=event@key230 50=%it230_17 51=_acc261 52=annotation@261 53=%it261_35 54=_acc265 55=s@265 56=%it265_65 57=%it266_28 58=event@key269 59=%it269_17 60=_acc283 61=cc@283 62=%it283_19 63=event@key289 64=%it289_21 65=_t291 66=%it300_34 67=_t312 68=%it318_32 69=%it324_33
+-/
+def op__extract_subsequences__KU_LU_U_at_FBN (ix : Nat → Nat) : OpDef := ⟨"_extract_subsequences__KU_LU_U@FBN", 3,
+  .block [
+    .assign 0 (.param 0),
+    .assign 1 (.param 1),
+    .assign 2 (.param 2),
+    .callOp 159 20 (ix 12) [(.var 0)],
+    .ite (
+      .raise) (
+      .skip),
+    .ite (
+      .raise) (
+      .skip),
+    .assign 21 .scalar,
+    .assign 24 (.tuple [(.var 1), (.var 1)]),
+    .loop [F, B, N, N, N, N, N, N, N, N, N, N, N, N, N, N, N, N, N, N, N, N, B, B, B] (
+      .block [
+        .assign 22 (.elem (.var 1)),
+        .assign 23 (.elem (.var 1))]),
+    .ite (
+      .raise) (
+      .skip),
+    .assign 25 .scalar,
+    .assign 27 (.var 1),
+    .loop [F, B, N, N, N, N, N, N, N, N, N, N, N, N, N, N, N, N, N, N, N, N, B, B, B, N, B, B] (
+      .assign 26 (.elem (.var 27))),
+    .ite (
+      .raise) (
+      .skip),
+    .ite (
+      .assign 2 .scalar) (
+      .skip),
+    .assign 17 .fresh,
+    .write 174 (.var 17),
+    .write 176 (.var 17),
+    .write 178 (.field (.var 17)),
+    .write 179 (.field (.var 17)),
+    .write 180 (.field (.var 17)),
+    .write 181 (.field (.var 17)),
+    .write 182 (.field (.var 17)),
+    .write 183 (.field (.var 17)),
+    .write 184 (.field (.var 17)),
+    .assign 28 .scalar,
+    .assign 30 .scalar,
+    .loop [F, B, N, N, N, N, N, N, N, N, N, N, N, N, N, N, N, F, N, N, N, N, B, B, B, N, B, B, F, N, N] (
+      .block [
+        .assign 29 (.elem (.var 30)),
+        .assign 28 (.tuple [(.var 28), (.copyOf (.var 17))])]),
+    .assign 19 (.var 28),
+    .assign 18 .scalar,
+    .assign 32 (.field (.var 0)),
+    .loop [F, B, N, N, N, N, N, N, N, F, N, N, N, N, N, N, N, F, N, F, N, N, B, B, B, N, B, B, F, N, N, N, F] (
+      .block [
+        .assign 9 (.elem (.var 32)),
+        .ite (
+          .skip) (
+          .ite (
+            .skip) (
+            .block [
+              .write 200 (.field (.elem (.var 19))),
+              .write 201 (.elem (.field (.elem (.var 19)))),
+              .write 203 (.elem (.field (.elem (.var 19)))),
+              .ite (
+                .write 208 (.elem (.var 19))) (
+                .skip)]))]),
+    .assign 33 .scalar,
+    .assign 35 (.field (.var 0)),
+    .loop [F, B, N, N, N, N, N, N, N, F, N, N, N, N, N, N, N, F, N, F, N, N, B, B, B, N, B, B, F, N, N, N, F, F, F, F] (
+      .block [
+        .assign 34 (.elem (.var 35)),
+        .ite (
+          .assign 33 (.tuple [(.var 33), (.var 34)])) (
+          .skip)]),
+    .assign 6 (.tuple [(.field (.var 0)), (.field (.var 0)), (.field (.var 0)), (.var 33)]),
+    .assign 36 .scalar,
+    .assign 38 (.var 19),
+    .loop [F, B, N, N, N, N, F, N, N, F, N, N, N, N, N, N, N, F, N, F, N, N, B, B, B, N, B, B, F, N, N, N, F, F, F, F, F, F, F] (
+      .block [
+        .assign 37 (.elem (.var 38)),
+        .assign 36 (.tuple [(.var 36), (.field (.var 37))])]),
+    .assign 39 .scalar,
+    .assign 41 (.var 19),
+    .loop [F, B, N, N, N, N, F, N, N, F, N, N, N, N, N, N, N, F, N, F, N, N, B, B, B, N, B, B, F, N, N, N, F, F, F, F, F, F, F, F, F, F] (
+      .block [
+        .assign 40 (.elem (.var 41)),
+        .assign 39 (.tuple [(.var 39), (.field (.var 40))])]),
+    .assign 42 .scalar,
+    .assign 44 (.var 19),
+    .loop [F, B, N, N, N, N, F, N, N, F, N, N, N, N, N, N, N, F, N, F, N, N, B, B, B, N, B, B, F, N, N, N, F, F, F, F, F, F, F, F, F, F, F, F, F] (
+      .block [
+        .assign 43 (.elem (.var 44)),
+        .assign 42 (.tuple [(.var 42), (.field (.var 43))])]),
+    .assign 45 .scalar,
+    .assign 47 (.var 19),
+    .loop [F, B, N, N, N, N, F, N, N, F, N, N, N, N, N, N, N, F, N, F, N, N, B, B, B, N, B, B, F, N, N, N, F, F, F, F, F, F, F, F, F, F, F, F, F, F, F, F] (
+      .block [
+        .assign 46 (.elem (.var 47)),
+        .assign 45 (.tuple [(.var 45), (.field (.var 46))])]),
+    .assign 7 (.tuple [(.var 36), (.var 39), (.var 42), (.var 45)]),
+    .assign 48 (.tuple [(.var 6), (.var 7)]),
+    .loop [F, B, N, F, F, F, F, F, N, F, N, N, F, N, N, N, N, F, N, F, N, N, B, B, B, N, B, B, F, N, N, N, F, F, F, F, F, F, F, F, F, F, F, F, F, F, F, F, F, N, F] (
+      .block [
+        .assign 5 (.elem (.var 6)),
+        .assign 3 (.elem (.var 7)),
+        .assign 12 .scalar,
+        .assign 18 .scalar,
+        .assign 50 (.var 5),
+        .loop [F, B, N, F, F, F, F, F, N, F, N, N, F, N, N, N, N, F, N, F, N, N, B, B, B, N, B, B, F, N, N, N, F, F, F, F, F, F, F, F, F, F, F, F, F, F, F, F, F, N, F] (
+          .block [
+            .assign 4 (.elem (.var 50)),
+            .ite (
+              .assign 12 (.var 4)) (
+              .skip),
+            .ite (
+              .skip) (
+              .block [
+                .loop [F, B, N, F, F, F, F, F, N, F, N, N, F, N, N, N, N, F, N, F, N, N, B, B, B, N, B, B, F, N, N, N, F, F, F, F, F, F, F, F, F, F, F, F, F, F, F, F, F, N, F] (
+                  .ite (
+                    .skip) (
+                    .ite (
+                      .block [
+                        .write 241 (.elem (.var 3)),
+                        .write 242 (.elem (.elem (.var 3)))]) (
+                      .skip))),
+                .ite (
+                  .skip) (
+                  .block [
+                    .ite (
+                      .block [
+                        .write 248 (.elem (.var 3)),
+                        .write 249 (.elem (.elem (.var 3)))]) (
+                      .skip),
+                    .assign 12 (.var 4)])])]),
+        .loop [F, B, N, F, F, F, F, F, N, F, N, N, F, N, N, N, N, F, N, F, N, N, B, B, B, N, B, B, F, N, N, N, F, F, F, F, F, F, F, F, F, F, F, F, F, F, F, F, F, N, F] (
+          .ite (
+            .block [
+              .write 255 (.elem (.var 3)),
+              .write 256 (.elem (.elem (.var 3)))]) (
+            .skip))]),
+    .assign 51 .scalar,
+    .assign 53 (.field (.var 0)),
+    .loop [F, B, N, F, F, F, F, F, N, F, N, N, F, N, N, N, N, F, N, F, N, N, B, B, B, N, B, B, F, N, N, N, F, F, F, F, F, F, F, F, F, F, F, F, F, F, F, F, F, N, F, F, F, F] (
+      .block [
+        .assign 52 (.elem (.var 53)),
+        .ite (
+          .assign 51 (.tuple [(.var 51), (.var 52)])) (
+          .skip)]),
+    .assign 16 (.var 51),
+    .assign 54 .scalar,
+    .assign 56 (.var 19),
+    .loop [F, B, N, F, F, F, F, F, N, F, N, N, F, N, N, N, F, F, N, F, N, N, B, B, B, N, B, B, F, N, N, N, F, F, F, F, F, F, F, F, F, F, F, F, F, F, F, F, F, N, F, F, F, F, F, F, F] (
+      .block [
+        .assign 55 (.elem (.var 56)),
+        .assign 54 (.tuple [(.var 54), (.field (.var 55))])]),
+    .assign 8 (.var 54),
+    .assign 57 (.tuple [(.var 16), (.var 8)]),
+    .loop [F, B, N, F, F, F, F, F, F, F, N, N, F, N, N, N, F, F, N, F, N, N, B, B, B, N, B, B, F, N, N, N, F, F, F, F, F, F, F, F, F, F, F, F, F, F, F, F, F, N, F, F, F, F, F, F, F, F, N, F] (
+      .block [
+        .assign 5 (.elem (.var 16)),
+        .assign 3 (.elem (.var 8)),
+        .assign 18 .scalar,
+        .assign 59 (.var 5),
+        .loop [F, B, N, F, F, F, F, F, F, F, N, N, F, N, N, N, F, F, N, F, N, N, B, B, B, N, B, B, F, N, N, N, F, F, F, F, F, F, F, F, F, F, F, F, F, F, F, F, F, N, F, F, F, F, F, F, F, F, N, F] (
+          .block [
+            .assign 4 (.elem (.var 59)),
+            .ite (
+              .skip) (
+              .ite (
+                .skip) (
+                .block [
+                  .write 277 (.elem (.var 3)),
+                  .write 278 (.elem (.elem (.var 3)))]))])]),
+    .assign 60 .scalar,
+    .assign 62 (.field (.var 0)),
+    .loop [F, B, N, F, F, F, F, F, F, F, N, N, F, N, N, N, F, F, N, F, N, N, B, B, B, N, B, B, F, N, N, N, F, F, F, F, F, F, F, F, F, F, F, F, F, F, F, F, F, N, F, F, F, F, F, F, F, F, N, F, F, F, F] (
+      .block [
+        .assign 61 (.elem (.var 62)),
+        .ite (
+          .assign 60 (.tuple [(.var 60), (.var 61)])) (
+          .skip)]),
+    .assign 11 (.var 60),
+    .assign 14 .scalar,
+    .assign 18 .scalar,
+    .assign 64 (.var 11),
+    .loop [F, B, N, F, F, F, F, F, F, F, F, F, F, F, F, N, F, F, N, F, N, N, B, B, B, N, B, B, F, N, N, N, F, F, F, F, F, F, F, F, F, F, F, F, F, F, F, F, F, N, F, F, F, F, F, F, F, F, N, F, F, F, F, N, F, F, F, F] (
+      .block [
+        .assign 10 (.elem (.var 64)),
+        .ite (
+          .block [
+            .assign 65 (.var 10),
+            .assign 14 (.tuple [(.var 14), (.var 65)])]) (
+          .skip),
+        .ite (
+          .skip) (
+          .block [
+            .loop [F, B, N, F, F, F, F, F, F, F, F, F, F, F, F, N, F, F, N, F, N, N, B, B, B, N, B, B, F, N, N, N, F, F, F, F, F, F, F, F, F, F, F, F, F, F, F, F, F, N, F, F, F, F, F, F, F, F, N, F, F, F, F, N, F, F, F, F] (
+              .ite (
+                .skip) (
+                .block [
+                  .assign 66 (.var 14),
+                  .loop [F, B, N, F, F, F, F, F, F, F, F, F, F, F, F, N, F, F, N, F, N, N, B, B, B, N, B, B, F, N, N, N, F, F, F, F, F, F, F, F, F, F, F, F, F, F, F, F, F, N, F, F, F, F, F, F, F, F, N, F, F, F, F, N, F, F, F, F] (
+                    .block [
+                      .assign 13 (.elem (.var 66)),
+                      .write 301 (.field (.elem (.var 19))),
+                      .write 303 (.elem (.field (.elem (.var 19))))])])),
+            .ite (
+              .skip) (
+              .block [
+                .ite (
+                  .block [
+                    .write 309 (.field (.elem (.var 19))),
+                    .write 310 (.elem (.field (.elem (.var 19))))]) (
+                  .skip),
+                .assign 67 (.var 10),
+                .assign 14 (.tuple [(.var 14), (.var 67)]),
+                .assign 66 (.tuple [(.var 66), (.var 67)])])])]),
+    .loop [F, B, N, F, F, F, F, F, F, F, F, F, F, F, F, N, F, F, N, F, N, N, B, B, B, N, B, B, F, N, N, N, F, F, F, F, F, F, F, F, F, F, F, F, F, F, F, F, F, N, F, F, F, F, F, F, F, F, N, F, F, F, F, N, F, F, F, F, F] (
+      .block [
+        .assign 68 (.var 14),
+        .loop [F, B, N, F, F, F, F, F, F, F, F, F, F, F, F, N, F, F, N, F, N, N, B, B, B, N, B, B, F, N, N, N, F, F, F, F, F, F, F, F, F, F, F, F, F, F, F, F, F, N, F, F, F, F, F, F, F, F, N, F, F, F, F, N, F, F, F, F, F] (
+          .block [
+            .assign 13 (.elem (.var 68)),
+            .write 319 (.field (.elem (.var 19))),
+            .write 321 (.elem (.field (.elem (.var 19))))])]),
+    .assign 69 (.tuple [(.var 19), (.var 1)]),
+    .loop [F, B, N, F, F, F, F, F, F, F, F, F, F, F, F, B, F, F, N, F, N, N, B, B, B, N, B, B, F, N, N, N, F, F, F, F, F, F, F, F, F, F, F, F, F, F, F, F, F, N, F, F, F, F, F, F, F, F, N, F, F, F, F, N, F, F, F, F, F, B] (
+      .block [
+        .assign 17 (.elem (.var 19)),
+        .assign 15 (.elem (.var 1)),
+        .write 325 (.field (.var 17)),
+        .write 326 (.field (.var 17))]),
+    .ret (.var 19)]⟩
+def ct__extract_subsequences__KU_LU_U_at_FBN : Contract := ⟨[F, B, N], F⟩
+
+/-- `extract_subsequence__KU_S_U_U@FNBN` (sequences_lib.py:332)  params: sequence, start_time, end_time, preserve_control_numbers
+variables: 0=sequence 1=start_time 2=end_time 3=preserve_control_numbers 4=_r368
+-/
+def op_extract_subsequence__KU_S_U_U_at_FNBN (ix : Nat → Nat) : OpDef := ⟨"extract_subsequence__KU_S_U_U@FNBN", 4,
+  .block [
+    .assign 0 (.param 0),
+    .assign 1 (.param 1),
+    .assign 2 (.param 2),
+    .assign 3 (.param 3),
+    .callOp 368 4 (ix 27) [(.var 0), (.tuple [(.var 1), (.var 2)]), (.var 3)],
+    .ret (.elem (.var 4))]⟩
+def ct_extract_subsequence__KU_S_U_U_at_FNBN : Contract := ⟨[F, N, B, N], F⟩
+
+/-- `repeat_sequence_to_duration` (sequences_lib.py:555)  params: sequence, duration, sequence_duration
+variables: 0=sequence 1=duration 2=sequence_duration 3=num_repeats 4=repeated_ns 5=trimmed 6=_r569 7=_r573
+-/
+def op_repeat_sequence_to_duration (ix : Nat → Nat) : OpDef := ⟨"repeat_sequence_to_duration", 3,
+  .block [
+    .assign 0 (.param 0),
+    .assign 1 (.param 1),
+    .assign 2 (.param 2),
+    .ite (
+      .assign 2 .scalar) (
+      .skip),
+    .assign 3 .scalar,
+    .callOp 569 6 (ix 26) [(.tuple [(.var 0), (.var 3)]), (.tuple [(.var 2), (.var 3)])],
+    .assign 4 (.var 6),
+    .callOp 573 7 (ix 28) [(.var 4), .scalar, (.var 1), .scalar],
+    .assign 5 (.var 7),
+    .write 574 (.var 5),
+    .ret (.var 5)]⟩
+def ct_repeat_sequence_to_duration : Contract := ⟨[B, B, B], F⟩
+
+/-- `extract_subsequence__KU_S_S_U@BNNN` (sequences_lib.py:332)  params: sequence, start_time, end_time, preserve_control_numbers
+variables: 0=sequence 1=start_time 2=end_time 3=preserve_control_numbers 4=_r368
+-/
+def op_extract_subsequence__KU_S_S_U_at_BNNN (ix : Nat → Nat) : OpDef := ⟨"extract_subsequence__KU_S_S_U@BNNN", 4,
+  .block [
+    .assign 0 (.param 0),
+    .assign 1 (.param 1),
+    .assign 2 (.param 2),
+    .assign 3 (.param 3),
+    .callOp 368 4 (ix 7) [(.var 0), (.tuple [(.var 1), (.var 2)]), (.var 3)],
+    .ret (.elem (.var 4))]⟩
+def ct_extract_subsequence__KU_S_S_U_at_BNNN : Contract := ⟨[B, N, N, N], F⟩
+
+/-- `expand_section_groups.sections_in_group` (sequences_lib.py:614)  params: section_group
+variables: 0=section_group 1=field 2=section 3=sections 4=%it616_19 5=_r621
+-/
+def op_expand_section_groups_sections_in_group (ix : Nat → Nat) : OpDef := ⟨"expand_section_groups.sections_in_group", 1,
+  .block [
+    .assign 0 (.param 0),
+    .assign 3 .scalar,
+    .assign 4 (.field (.var 0)),
+    .loop [B, N, B, N, B, N] (
+      .block [
+        .assign 2 (.elem (.var 4)),
+        .assign 1 .scalar,
+        .ite (
+          .skip) (
+          .ite (
+            .block [
+              .callOp 621 5 (ix 31) [(.field (.var 2))],
+              .assign 3 (.tuple [(.var 3), (.var 5)])]) (
+            .skip))]),
+    .ret (.var 3)]⟩
+def ct_expand_section_groups_sections_in_group : Contract := ⟨[B], N⟩
+
+/-- `shift_sequence_times__KU_S@FN` (sequences_lib.py:374)  params: sequence, shift_seconds
+variables: 0=sequence 1=shift_seconds 2=event 3=events_to_shift 4=note 5=shifted 6=_r392 7=%it403_14 8=%it413_15
+-/
+def op_shift_sequence_times__KU_S_at_FN (ix : Nat → Nat) : OpDef := ⟨"shift_sequence_times__KU_S@FN", 2,
+  .block [
+    .assign 0 (.param 0),
+    .assign 1 (.param 1),
+    .ite (
+      .raise) (
+      .skip),
+    .callOp 392 6 (ix 12) [(.var 0)],
+    .ite (
+      .raise) (
+      .skip),
+    .assign 5 .fresh,
+    .write 397 (.var 5),
+    .write 400 (.var 5),
+    .assign 7 (.field (.var 5)),
+    .loop [F, N, N, N, F, F, N, F] (
+      .block [
+        .assign 4 (.elem (.var 7)),
+        .write 404 (.var 4),
+        .write 405 (.var 4)]),
+    .assign 3 (.tuple [(.field (.var 5)), (.field (.var 5)), (.field (.var 5)), (.field (.var 5)), (.field (.var 5)), (.field (.var 5)), (.field (.var 5))]),
+    .assign 8 (.var 3),
+    .loop [F, N, F, F, F, F, N, F, F] (
+      .block [
+        .assign 2 (.elem (.var 8)),
+        .write 414 (.var 2)]),
+    .write 416 (.var 5),
+    .ret (.var 5)]⟩
+def ct_shift_sequence_times__KU_S_at_FN : Contract := ⟨[F, N], F⟩
+
+/-- `concatenate_sequences__KLU_LS@FN` (sequences_lib.py:471)  params: sequences, sequence_durations
+variables: 0=sequences 1=sequence_durations 2=cat_seq 3=current_total_time 4=i 5=sequence 6=%it499_11 7=_r507 8=_r519
+-/
+def op_concatenate_sequences__KLU_LS_at_FN (ix : Nat → Nat) : OpDef := ⟨"concatenate_sequences__KLU_LS@FN", 2,
+  .block [
+    .assign 0 (.param 0),
+    .assign 1 (.param 1),
+    .ite (
+      .raise) (
+      .skip),
+    .assign 3 .scalar,
+    .assign 2 .fresh,
+    .assign 6 .scalar,
+    .loop [F, N, F, N, N, F, N, F] (
+      .block [
+        .assign 4 (.elem (.var 6)),
+        .assign 5 (.elem (.var 0)),
+        .ite (
+          .raise) (
+          .skip),
+        .ite (
+          .block [
+            .callOp 507 7 (ix 32) [(.var 5), (.var 3)],
+            .write 507 (.var 2)]) (
+          .write 509 (.var 2)),
+        .ite (
+          .assign 3 (.tuple [(.var 3), (.elem (.var 1))])) (
+          .assign 3 .scalar)]),
+    .write 517 (.var 2),
+    .callOp 519 8 (ix 23) [(.var 2)],
+    .ret (.var 8)]⟩
+def ct_concatenate_sequences__KLU_LS_at_FN : Contract := ⟨[F, N], F⟩
+
+/-- `expand_section_groups` (sequences_lib.py:578)  params: sequence
+variables: 0=sequence 1=end_time 2=i 3=section_durations 4=section_group 5=section_id 6=sections 7=sections_to_concat 8=start_time 9=subsequence 10=%it594_11 11=_r602 12=_t610 13=_t611 14=%it625_23 15=_r626 16=_acc629 17=i@629 18=%it629_28 19=_acc630 20=i@630 21=%it630_37 22=_r628
+-/
+def op_expand_section_groups (ix : Nat → Nat) : OpDef := ⟨"expand_section_groups", 1,
+  .block [
+    .assign 0 (.param 0),
+    .ite (
+      .ret (.copyOf (.var 0))) (
+      .skip),
+    .assign 6 .scalar,
+    .assign 3 .scalar,
+    .assign 10 .scalar,
+    .loop [B, N, N, N, N, N, F, N, N, F, N, F, F, N] (
+      .block [
+        .assign 2 (.elem (.var 10)),
+        .assign 5 .scalar,
+        .assign 8 .scalar,
+        .ite (
+          .assign 1 .scalar) (
+          .assign 1 .scalar),
+        .callOp 602 11 (ix 30) [(.var 0), (.var 8), (.var 1), .scalar],
+        .assign 9 (.var 11),
+        .write 604 (.field (.var 9)),
+        .write 607 (.field (.var 9)),
+        .write 608 (.field (.var 9)),
+        .assign 12 (.var 9),
+        .assign 0 (.tuple [(.var 0), (.var 12)]),
+        .assign 6 (.tuple [(.var 6), (.var 12)]),
+        .assign 9 (.tuple [(.var 9), (.var 12)]),
+        .assign 13 (.tuple [(.var 1), (.var 8)]),
+        .assign 3 (.tuple [(.var 3), (.var 13)])]),
+    .assign 7 .scalar,
+    .assign 14 (.field (.var 0)),
+    .loop [B, N, N, N, B, N, F, N, N, F, N, F, F, N, B, N] (
+      .block [
+        .assign 4 (.elem (.var 14)),
+        .callOp 626 15 (ix 31) [(.var 4)],
+        .assign 2 (.tuple [(.var 2), (.var 15)]),
+        .assign 7 (.tuple [(.var 7), (.var 15)])]),
+    .assign 16 .scalar,
+    .assign 18 (.var 7),
+    .loop [B, N, N, N, B, N, F, N, N, F, N, F, F, N, B, N, F, N, N] (
+      .block [
+        .assign 17 (.elem (.var 18)),
+        .assign 16 (.tuple [(.var 16), (.elem (.var 6))])]),
+    .assign 19 .scalar,
+    .assign 21 (.var 7),
+    .loop [B, N, N, N, B, N, F, N, N, F, N, F, F, N, B, N, F, N, N, N, N, N] (
+      .block [
+        .assign 20 (.elem (.var 21)),
+        .assign 19 (.tuple [(.var 19), (.elem (.var 3))])]),
+    .callOp 628 22 (ix 33) [(.var 16), (.var 19)],
+    .ret (.var 22)]⟩
+def ct_expand_section_groups : Contract := ⟨[B], F⟩
+
 /-- `remove_redundant_data` (sequences_lib.py:421)  params: sequence
 variables: 0=sequence 1=added_composer 2=added_genre 3=composer 4=events 5=fixed_sequence 6=genre 7=i 8=tmp_ts 9=%it439_16 10=e@key443 11=%it444_13 12=%it456_20 13=%it463_17
 -/
@@ -1052,163 +2340,6 @@ def op_remove_redundant_data (ix : Nat → Nat) : OpDef := ⟨"remove_redundant_
       .skip),
     .ret (.var 5)]⟩
 def ct_remove_redundant_data : Contract := ⟨[B], F⟩
-
-/-- `concatenate_sequences` (sequences_lib.py:471)  params: sequences, sequence_durations
-variables: 0=sequences 1=sequence_durations 2=cat_seq 3=current_total_time 4=i 5=sequence 6=%it499_11 7=_r507 8=_r519
--/
-def op_concatenate_sequences (ix : Nat → Nat) : OpDef := ⟨"concatenate_sequences", 2,
-  .block [
-    .assign 0 (.param 0),
-    .assign 1 (.param 1),
-    .ite (
-      .raise) (
-      .skip),
-    .assign 3 .scalar,
-    .assign 2 .fresh,
-    .assign 6 .scalar,
-    .loop [B, B, F, B, N, B, N, F] (
-      .block [
-        .assign 4 (.elem (.var 6)),
-        .assign 5 (.elem (.var 0)),
-        .ite (
-          .raise) (
-          .skip),
-        .ite (
-          .block [
-            .callOp 507 7 (ix 7) [(.var 5), (.var 3)],
-            .write 507 (.var 2)]) (
-          .write 509 (.var 2)),
-        .ite (
-          .block [
-            .assign 1 (.tuple [(.var 1), (.elem (.var 1))]),
-            .assign 3 (.tuple [(.var 3), (.elem (.var 1))])]) (
-          .assign 3 .scalar)]),
-    .write 517 (.var 2),
-    .callOp 519 8 (ix 19) [(.var 2)],
-    .ret (.var 8)]⟩
-def ct_concatenate_sequences : Contract := ⟨[B, B], F⟩
-
-/-- `merge_sequences` (sequences_lib.py:522)  params: sequences
-variables: 0=sequences 1=cat_seq 2=seq 3=%it542_13 4=_acc548 5=seq@548 6=%it548_55 7=_r552
--/
-def op_merge_sequences (ix : Nat → Nat) : OpDef := ⟨"merge_sequences", 1,
-  .block [
-    .assign 0 (.param 0),
-    .assign 1 .fresh,
-    .assign 3 (.var 0),
-    .loop [B, F, B, B] (
-      .block [
-        .assign 2 (.elem (.var 3)),
-        .write 543 (.var 1)]),
-    .ite (
-      .block [
-        .assign 4 .scalar,
-        .assign 6 (.var 0),
-        .loop [B, F, B, B, N, B, B] (
-          .assign 5 (.elem (.var 6))),
-        .write 548 (.var 1)]) (
-      .skip),
-    .write 551 (.var 1),
-    .callOp 552 7 (ix 19) [(.var 1)],
-    .ret (.var 7)]⟩
-def ct_merge_sequences : Contract := ⟨[B], F⟩
-
-/-- `repeat_sequence_to_duration` (sequences_lib.py:555)  params: sequence, duration, sequence_duration
-variables: 0=sequence 1=duration 2=sequence_duration 3=num_repeats 4=repeated_ns 5=trimmed 6=_r569 7=_r573
--/
-def op_repeat_sequence_to_duration (ix : Nat → Nat) : OpDef := ⟨"repeat_sequence_to_duration", 3,
-  .block [
-    .assign 0 (.param 0),
-    .assign 1 (.param 1),
-    .assign 2 (.param 2),
-    .ite (
-      .assign 2 .scalar) (
-      .skip),
-    .assign 3 .scalar,
-    .callOp 569 6 (ix 20) [(.tuple [(.var 0), (.var 3)]), (.tuple [(.var 2), (.var 3)])],
-    .assign 4 (.var 6),
-    .callOp 573 7 (ix 3) [(.var 4), .scalar, (.var 1), .scalar],
-    .assign 5 (.var 7),
-    .write 574 (.var 5),
-    .ret (.var 5)]⟩
-def ct_repeat_sequence_to_duration : Contract := ⟨[B, B, B], F⟩
-
-/-- `expand_section_groups.sections_in_group` (sequences_lib.py:614)  params: section_group
-variables: 0=section_group 1=field 2=section 3=sections 4=%it616_19 5=_r621
--/
-def op_expand_section_groups_sections_in_group (ix : Nat → Nat) : OpDef := ⟨"expand_section_groups.sections_in_group", 1,
-  .block [
-    .assign 0 (.param 0),
-    .assign 3 .scalar,
-    .assign 4 (.field (.var 0)),
-    .loop [B, N, B, N, B, N] (
-      .block [
-        .assign 2 (.elem (.var 4)),
-        .assign 1 .scalar,
-        .ite (
-          .skip) (
-          .ite (
-            .block [
-              .callOp 621 5 (ix 23) [(.field (.var 2))],
-              .assign 3 (.tuple [(.var 3), (.var 5)])]) (
-            .skip))]),
-    .ret (.var 3)]⟩
-def ct_expand_section_groups_sections_in_group : Contract := ⟨[B], N⟩
-
-/-- `expand_section_groups` (sequences_lib.py:578)  params: sequence
-variables: 0=sequence 1=end_time 2=i 3=section_durations 4=section_group 5=section_id 6=sections 7=sections_to_concat 8=start_time 9=subsequence 10=%it594_11 11=_r602 12=_t610 13=_t611 14=%it625_23 15=_r626 16=_acc629 17=i@629 18=%it629_28 19=_acc630 20=i@630 21=%it630_37 22=_r628
--/
-def op_expand_section_groups (ix : Nat → Nat) : OpDef := ⟨"expand_section_groups", 1,
-  .block [
-    .assign 0 (.param 0),
-    .ite (
-      .ret (.copyOf (.var 0))) (
-      .skip),
-    .assign 6 .scalar,
-    .assign 3 .scalar,
-    .assign 10 .scalar,
-    .loop [B, N, N, N, N, N, F, N, N, F, N, F, F, N] (
-      .block [
-        .assign 2 (.elem (.var 10)),
-        .assign 5 .scalar,
-        .assign 8 .scalar,
-        .ite (
-          .assign 1 .scalar) (
-          .assign 1 .scalar),
-        .callOp 602 11 (ix 3) [(.var 0), (.var 8), (.var 1), .scalar],
-        .assign 9 (.var 11),
-        .write 604 (.field (.var 9)),
-        .write 607 (.field (.var 9)),
-        .write 608 (.field (.var 9)),
-        .assign 12 (.var 9),
-        .assign 0 (.tuple [(.var 0), (.var 12)]),
-        .assign 6 (.tuple [(.var 6), (.var 12)]),
-        .assign 9 (.tuple [(.var 9), (.var 12)]),
-        .assign 13 (.tuple [(.var 1), (.var 8)]),
-        .assign 3 (.tuple [(.var 3), (.var 13)])]),
-    .assign 7 .scalar,
-    .assign 14 (.field (.var 0)),
-    .loop [B, N, N, N, B, N, F, N, N, F, N, F, F, N, B, N] (
-      .block [
-        .assign 4 (.elem (.var 14)),
-        .callOp 626 15 (ix 23) [(.var 4)],
-        .assign 2 (.tuple [(.var 2), (.var 15)]),
-        .assign 7 (.tuple [(.var 7), (.var 15)])]),
-    .assign 16 .scalar,
-    .assign 18 (.var 7),
-    .loop [B, N, N, N, B, N, F, N, N, F, N, F, F, N, B, N, F, N, N] (
-      .block [
-        .assign 17 (.elem (.var 18)),
-        .assign 16 (.tuple [(.var 16), (.elem (.var 6))])]),
-    .assign 19 .scalar,
-    .assign 21 (.var 7),
-    .loop [B, N, N, N, B, N, F, N, N, F, N, F, F, N, B, N, F, N, N, N, N, N] (
-      .block [
-        .assign 20 (.elem (.var 21)),
-        .assign 19 (.tuple [(.var 19), (.elem (.var 3))])]),
-    .callOp 628 22 (ix 20) [(.var 16), (.var 19)],
-    .ret (.var 22)]⟩
-def ct_expand_section_groups : Contract := ⟨[B], F⟩
 
 /-- `adjust_notesequence_times` (sequences_lib.py:1382)  params: ns, time_func, minimum_duration
 variables: 0=ns 1=time_func 2=minimum_duration 3=adjusted_note 4=adjusted_ns 5=end_time 6=event 7=events 8=note 9=skipped_notes 10=start_time 11=time 12=%it1419_14 13=%it1472_15
@@ -1269,17 +2400,76 @@ def op_adjust_notesequence_times (ix : Nat → Nat) : OpDef := ⟨"adjust_notese
     .ret (.tuple [(.var 4), (.var 9)])]⟩
 def ct_adjust_notesequence_times : Contract := ⟨[B, B, B], F⟩
 
-/-- `rectify_beats.time_func` (sequences_lib.py:1528)  params: t, unique_beat_times, rectified_beat_times, sequence
+/-- `rectify_beats.time_func@NNBB` (sequences_lib.py:1528)  params: t, unique_beat_times, rectified_beat_times, sequence
 variables: 0=t 1=unique_beat_times 2=rectified_beat_times 3=sequence
 -/
-def op_rectify_beats_time_func (ix : Nat → Nat) : OpDef := ⟨"rectify_beats.time_func", 4,
+def op_rectify_beats_time_func_at_NNBB (ix : Nat → Nat) : OpDef := ⟨"rectify_beats.time_func@NNBB", 4,
   .block [
     .assign 0 (.param 0),
     .assign 1 (.param 1),
     .assign 2 (.param 2),
     .assign 3 (.param 3),
     .ret .scalar]⟩
-def ct_rectify_beats_time_func : Contract := ⟨[B, B, B, B], N⟩
+def ct_rectify_beats_time_func_at_NNBB : Contract := ⟨[N, N, B, B], N⟩
+
+/-- `adjust_notesequence_times__KU_S_U@BNN` (sequences_lib.py:1382)  params: ns, time_func, minimum_duration
+variables: 0=ns 1=time_func 2=minimum_duration 3=adjusted_note 4=adjusted_ns 5=end_time 6=event 7=events 8=note 9=skipped_notes 10=start_time 11=time 12=%it1419_14 13=%it1472_15
+-/
+def op_adjust_notesequence_times__KU_S_U_at_BNN (ix : Nat → Nat) : OpDef := ⟨"adjust_notesequence_times__KU_S_U@BNN", 3,
+  .block [
+    .assign 0 (.param 0),
+    .assign 1 (.param 1),
+    .assign 2 (.param 2),
+    .assign 4 (.copyOf (.var 0)),
+    .write 1416 (.var 4),
+    .assign 9 .scalar,
+    .write 1418 (.field (.var 4)),
+    .assign 12 (.field (.var 0)),
+    .loop [B, N, N, F, F, N, N, N, B, N, N, N, B] (
+      .block [
+        .assign 8 (.elem (.var 12)),
+        .assign 10 .scalar,
+        .assign 5 .scalar,
+        .ite (
+          .ite (
+            .block [
+              .assign 2 (.tuple [(.var 2), (.var 2)]),
+              .assign 5 (.tuple [(.var 5), (.var 2)])]) (
+            .skip)) (
+          .skip),
+        .ite (
+          .skip) (
+          .block [
+            .ite (
+              .raise) (
+              .skip),
+            .ite (
+              .raise) (
+              .skip),
+            .ite (
+              .raise) (
+              .skip),
+            .ite (
+              .write 1456 (.var 4)) (
+              .skip),
+            .write 1458 (.field (.var 4)),
+            .assign 3 (.elem (.field (.var 4))),
+            .write 1459 (.var 3),
+            .write 1460 (.var 3),
+            .write 1461 (.var 3)])]),
+    .assign 7 (.tuple [(.field (.var 4)), (.field (.var 4)), (.field (.var 4)), (.field (.var 4)), (.field (.var 4)), (.field (.var 4))]),
+    .assign 13 (.var 7),
+    .loop [B, N, N, F, F, N, F, F, B, N, N, N, B, F] (
+      .block [
+        .assign 6 (.elem (.var 13)),
+        .assign 11 .scalar,
+        .ite (
+          .raise) (
+          .skip),
+        .write 1478 (.var 6)]),
+    .write 1482 (.field (.var 4)),
+    .ret (.tuple [(.var 4), (.var 9)])]⟩
+def ct_adjust_notesequence_times__KU_S_U_at_BNN : Contract := ⟨[B, N, N], F⟩
 
 /-- `rectify_beats` (sequences_lib.py:1487)  params: sequence, beats_per_minute
 variables: 0=sequence 1=beats_per_minute 2=_ 3=beat_times 4=num_beats 5=rectified_beat_times 6=rectified_sequence 7=seconds_per_beat 8=sorted_beat_times 9=unique_beat_times 10=_r1504 11=_acc1508 12=ta@1508 13=%it1508_24 14=_acc1519 15=i@1519 16=%it1519_36 17=_clo1532 18=_r1532 19=_t1532
@@ -1314,8 +2504,8 @@ def op_rectify_beats (ix : Nat → Nat) : OpDef := ⟨"rectify_beats", 2,
     .assign 7 (.var 1),
     .assign 5 (.var 7),
     .loop [B, B, N, N, N, B, N, B, N, N, N, N, B, B, N, N, N] (
-      .callOp 1532 17 (ix 26) [.scalar, (.var 9), (.var 5), (.var 0)]),
-    .callOp 1532 18 (ix 25) [(.var 0), .scalar, .scalar],
+      .callOp 1532 17 (ix 37) [.scalar, (.var 9), (.var 5), (.var 0)]),
+    .callOp 1532 18 (ix 38) [(.var 0), .scalar, .scalar],
     .assign 19 (.var 18),
     .assign 6 (.proj (.var 19) 0),
     .assign 2 (.proj (.var 19) 1),
@@ -1334,105 +2524,105 @@ def ir__extract_subsequences : Prog :=
   let ix : Nat → Nat := fun g => match g with | 0 => 0 | 2 => 1 | _ => 99999
   ⟨[op_is_quantized_sequence ix, op__extract_subsequences ix], [ct_is_quantized_sequence, ct__extract_subsequences], 1⟩
 
-/-- program slice of `extract_subsequence`: is_quantized_sequence, _extract_subsequences, extract_subsequence -/
+/-- program slice of `extract_subsequence`: is_quantized_sequence, _extract_subsequences__KU_LU_U, extract_subsequence -/
 def ir_extract_subsequence : Prog :=
-  let ix : Nat → Nat := fun g => match g with | 0 => 0 | 2 => 1 | 3 => 2 | _ => 99999
-  ⟨[op_is_quantized_sequence ix, op__extract_subsequences ix, op_extract_subsequence ix], [ct_is_quantized_sequence, ct__extract_subsequences, ct_extract_subsequence], 2⟩
+  let ix : Nat → Nat := fun g => match g with | 0 => 0 | 3 => 1 | 4 => 2 | _ => 99999
+  ⟨[op_is_quantized_sequence ix, op__extract_subsequences__KU_LU_U ix, op_extract_subsequence ix], [ct_is_quantized_sequence, ct__extract_subsequences__KU_LU_U, ct_extract_subsequence], 2⟩
 
-/-- program slice of `split_note_sequence`: is_quantized_sequence, _extract_subsequences, split_note_sequence -/
+/-- program slice of `split_note_sequence`: is_quantized_sequence, _extract_subsequences__KU_LU_U@BBN, split_note_sequence -/
 def ir_split_note_sequence : Prog :=
-  let ix : Nat → Nat := fun g => match g with | 0 => 0 | 2 => 1 | 4 => 2 | _ => 99999
-  ⟨[op_is_quantized_sequence ix, op__extract_subsequences ix, op_split_note_sequence ix], [ct_is_quantized_sequence, ct__extract_subsequences, ct_split_note_sequence], 2⟩
+  let ix : Nat → Nat := fun g => match g with | 0 => 0 | 5 => 1 | 6 => 2 | _ => 99999
+  ⟨[op_is_quantized_sequence ix, op__extract_subsequences__KU_LU_U_at_BBN ix, op_split_note_sequence ix], [ct_is_quantized_sequence, ct__extract_subsequences__KU_LU_U_at_BBN, ct_split_note_sequence], 2⟩
 
-/-- program slice of `split_note_sequence_on_time_changes`: is_quantized_sequence, _extract_subsequences, split_note_sequence_on_time_changes -/
+/-- program slice of `split_note_sequence_on_time_changes`: is_quantized_sequence, _extract_subsequences__KU_LS_U@BNN, split_note_sequence_on_time_changes -/
 def ir_split_note_sequence_on_time_changes : Prog :=
-  let ix : Nat → Nat := fun g => match g with | 0 => 0 | 2 => 1 | 5 => 2 | _ => 99999
-  ⟨[op_is_quantized_sequence ix, op__extract_subsequences ix, op_split_note_sequence_on_time_changes ix], [ct_is_quantized_sequence, ct__extract_subsequences, ct_split_note_sequence_on_time_changes], 2⟩
+  let ix : Nat → Nat := fun g => match g with | 0 => 0 | 7 => 1 | 8 => 2 | _ => 99999
+  ⟨[op_is_quantized_sequence ix, op__extract_subsequences__KU_LS_U_at_BNN ix, op_split_note_sequence_on_time_changes ix], [ct_is_quantized_sequence, ct__extract_subsequences__KU_LS_U_at_BNN, ct_split_note_sequence_on_time_changes], 2⟩
 
-/-- program slice of `split_note_sequence_on_silence`: is_quantized_sequence, _extract_subsequences, split_note_sequence_on_silence -/
+/-- program slice of `split_note_sequence_on_silence`: is_quantized_sequence, _extract_subsequences__KU_LS_U@BNN, split_note_sequence_on_silence -/
 def ir_split_note_sequence_on_silence : Prog :=
-  let ix : Nat → Nat := fun g => match g with | 0 => 0 | 2 => 1 | 6 => 2 | _ => 99999
-  ⟨[op_is_quantized_sequence ix, op__extract_subsequences ix, op_split_note_sequence_on_silence ix], [ct_is_quantized_sequence, ct__extract_subsequences, ct_split_note_sequence_on_silence], 2⟩
+  let ix : Nat → Nat := fun g => match g with | 0 => 0 | 7 => 1 | 9 => 2 | _ => 99999
+  ⟨[op_is_quantized_sequence ix, op__extract_subsequences__KU_LS_U_at_BNN ix, op_split_note_sequence_on_silence ix], [ct_is_quantized_sequence, ct__extract_subsequences__KU_LS_U_at_BNN, ct_split_note_sequence_on_silence], 2⟩
 
 /-- program slice of `shift_sequence_times`: is_quantized_sequence, shift_sequence_times -/
 def ir_shift_sequence_times : Prog :=
-  let ix : Nat → Nat := fun g => match g with | 0 => 0 | 7 => 1 | _ => 99999
+  let ix : Nat → Nat := fun g => match g with | 0 => 0 | 10 => 1 | _ => 99999
   ⟨[op_is_quantized_sequence ix, op_shift_sequence_times ix], [ct_is_quantized_sequence, ct_shift_sequence_times], 1⟩
 
 /-- program slice of `stretch_note_sequence`: is_quantized_sequence, stretch_note_sequence -/
 def ir_stretch_note_sequence : Prog :=
-  let ix : Nat → Nat := fun g => match g with | 0 => 0 | 8 => 1 | _ => 99999
+  let ix : Nat → Nat := fun g => match g with | 0 => 0 | 11 => 1 | _ => 99999
   ⟨[op_is_quantized_sequence ix, op_stretch_note_sequence ix], [ct_is_quantized_sequence, ct_stretch_note_sequence], 1⟩
 
-/-- program slice of `stretch_note_sequence__in_place`: is_quantized_sequence, stretch_note_sequence__in_place -/
+/-- program slice of `stretch_note_sequence__in_place`: is_quantized_sequence@F, stretch_note_sequence__in_place@FBB -/
 def ir_stretch_note_sequence__in_place : Prog :=
-  let ix : Nat → Nat := fun g => match g with | 0 => 0 | 9 => 1 | _ => 99999
-  ⟨[op_is_quantized_sequence ix, op_stretch_note_sequence__in_place ix], [ct_is_quantized_sequence, ct_stretch_note_sequence__in_place], 1⟩
+  let ix : Nat → Nat := fun g => match g with | 12 => 0 | 13 => 1 | _ => 99999
+  ⟨[op_is_quantized_sequence_at_F ix, op_stretch_note_sequence__in_place_at_FBB ix], [ct_is_quantized_sequence_at_F, ct_stretch_note_sequence__in_place_at_FBB], 1⟩
 
 /-- program slice of `transpose_note_sequence`: transpose_note_sequence -/
 def ir_transpose_note_sequence : Prog :=
-  let ix : Nat → Nat := fun g => match g with | 10 => 0 | _ => 99999
+  let ix : Nat → Nat := fun g => match g with | 14 => 0 | _ => 99999
   ⟨[op_transpose_note_sequence ix], [ct_transpose_note_sequence], 0⟩
 
-/-- program slice of `transpose_note_sequence__in_place`: transpose_note_sequence__in_place -/
+/-- program slice of `transpose_note_sequence__in_place`: transpose_note_sequence__in_place@FBBBBB -/
 def ir_transpose_note_sequence__in_place : Prog :=
-  let ix : Nat → Nat := fun g => match g with | 11 => 0 | _ => 99999
-  ⟨[op_transpose_note_sequence__in_place ix], [ct_transpose_note_sequence__in_place], 0⟩
+  let ix : Nat → Nat := fun g => match g with | 15 => 0 | _ => 99999
+  ⟨[op_transpose_note_sequence__in_place_at_FBBBBB ix], [ct_transpose_note_sequence__in_place_at_FBBBBB], 0⟩
 
-/-- program slice of `_quantize_notes`: quantize_to_step, _quantize_notes -/
+/-- program slice of `_quantize_notes`: quantize_to_step__KS_U_U@NBN, _quantize_notes@FB -/
 def ir__quantize_notes : Prog :=
-  let ix : Nat → Nat := fun g => match g with | 12 => 0 | 13 => 1 | _ => 99999
-  ⟨[op_quantize_to_step ix, op__quantize_notes ix], [ct_quantize_to_step, ct__quantize_notes], 1⟩
+  let ix : Nat → Nat := fun g => match g with | 16 => 0 | 17 => 1 | _ => 99999
+  ⟨[op_quantize_to_step__KS_U_U_at_NBN ix, op__quantize_notes_at_FB ix], [ct_quantize_to_step__KS_U_U_at_NBN, ct__quantize_notes_at_FB], 1⟩
 
-/-- program slice of `quantize_note_sequence`: _is_power_of_2, steps_per_quarter_to_steps_per_second, quantize_to_step, _quantize_notes, quantize_note_sequence -/
+/-- program slice of `quantize_note_sequence`: _is_power_of_2__KS@N, steps_per_quarter_to_steps_per_second__KU_S@BN, quantize_to_step__KS_U_U@NBN, _quantize_notes@FB, quantize_note_sequence -/
 def ir_quantize_note_sequence : Prog :=
-  let ix : Nat → Nat := fun g => match g with | 12 => 2 | 13 => 3 | 14 => 0 | 15 => 1 | 16 => 4 | _ => 99999
-  ⟨[op__is_power_of_2 ix, op_steps_per_quarter_to_steps_per_second ix, op_quantize_to_step ix, op__quantize_notes ix, op_quantize_note_sequence ix], [ct__is_power_of_2, ct_steps_per_quarter_to_steps_per_second, ct_quantize_to_step, ct__quantize_notes, ct_quantize_note_sequence], 4⟩
+  let ix : Nat → Nat := fun g => match g with | 16 => 2 | 17 => 3 | 18 => 0 | 19 => 1 | 20 => 4 | _ => 99999
+  ⟨[op__is_power_of_2__KS_at_N ix, op_steps_per_quarter_to_steps_per_second__KU_S_at_BN ix, op_quantize_to_step__KS_U_U_at_NBN ix, op__quantize_notes_at_FB ix, op_quantize_note_sequence ix], [ct__is_power_of_2__KS_at_N, ct_steps_per_quarter_to_steps_per_second__KU_S_at_BN, ct_quantize_to_step__KS_U_U_at_NBN, ct__quantize_notes_at_FB, ct_quantize_note_sequence], 4⟩
 
-/-- program slice of `quantize_note_sequence_absolute`: quantize_to_step, _quantize_notes, quantize_note_sequence_absolute -/
+/-- program slice of `quantize_note_sequence_absolute`: quantize_to_step__KS_U_U@NBN, _quantize_notes@FB, quantize_note_sequence_absolute -/
 def ir_quantize_note_sequence_absolute : Prog :=
-  let ix : Nat → Nat := fun g => match g with | 12 => 0 | 13 => 1 | 17 => 2 | _ => 99999
-  ⟨[op_quantize_to_step ix, op__quantize_notes ix, op_quantize_note_sequence_absolute ix], [ct_quantize_to_step, ct__quantize_notes, ct_quantize_note_sequence_absolute], 2⟩
+  let ix : Nat → Nat := fun g => match g with | 16 => 0 | 17 => 1 | 21 => 2 | _ => 99999
+  ⟨[op_quantize_to_step__KS_U_U_at_NBN ix, op__quantize_notes_at_FB ix, op_quantize_note_sequence_absolute ix], [ct_quantize_to_step__KS_U_U_at_NBN, ct__quantize_notes_at_FB, ct_quantize_note_sequence_absolute], 2⟩
 
 /-- program slice of `apply_sustain_control_changes`: is_quantized_sequence, apply_sustain_control_changes -/
 def ir_apply_sustain_control_changes : Prog :=
-  let ix : Nat → Nat := fun g => match g with | 0 => 0 | 18 => 1 | _ => 99999
+  let ix : Nat → Nat := fun g => match g with | 0 => 0 | 22 => 1 | _ => 99999
   ⟨[op_is_quantized_sequence ix, op_apply_sustain_control_changes ix], [ct_is_quantized_sequence, ct_apply_sustain_control_changes], 1⟩
 
-/-- program slice of `concatenate_sequences`: is_quantized_sequence, shift_sequence_times, remove_redundant_data, concatenate_sequences -/
+/-- program slice of `concatenate_sequences`: is_quantized_sequence, shift_sequence_times, remove_redundant_data__KP@F, concatenate_sequences -/
 def ir_concatenate_sequences : Prog :=
-  let ix : Nat → Nat := fun g => match g with | 0 => 0 | 7 => 1 | 19 => 2 | 20 => 3 | _ => 99999
-  ⟨[op_is_quantized_sequence ix, op_shift_sequence_times ix, op_remove_redundant_data ix, op_concatenate_sequences ix], [ct_is_quantized_sequence, ct_shift_sequence_times, ct_remove_redundant_data, ct_concatenate_sequences], 3⟩
+  let ix : Nat → Nat := fun g => match g with | 0 => 0 | 10 => 1 | 23 => 2 | 24 => 3 | _ => 99999
+  ⟨[op_is_quantized_sequence ix, op_shift_sequence_times ix, op_remove_redundant_data__KP_at_F ix, op_concatenate_sequences ix], [ct_is_quantized_sequence, ct_shift_sequence_times, ct_remove_redundant_data__KP_at_F, ct_concatenate_sequences], 3⟩
 
-/-- program slice of `merge_sequences`: remove_redundant_data, merge_sequences -/
+/-- program slice of `merge_sequences`: remove_redundant_data__KP@F, merge_sequences -/
 def ir_merge_sequences : Prog :=
-  let ix : Nat → Nat := fun g => match g with | 19 => 0 | 21 => 1 | _ => 99999
-  ⟨[op_remove_redundant_data ix, op_merge_sequences ix], [ct_remove_redundant_data, ct_merge_sequences], 1⟩
+  let ix : Nat → Nat := fun g => match g with | 23 => 0 | 25 => 1 | _ => 99999
+  ⟨[op_remove_redundant_data__KP_at_F ix, op_merge_sequences ix], [ct_remove_redundant_data__KP_at_F, ct_merge_sequences], 1⟩
 
-/-- program slice of `repeat_sequence_to_duration`: is_quantized_sequence, shift_sequence_times, remove_redundant_data, concatenate_sequences, _extract_subsequences, extract_subsequence, repeat_sequence_to_duration -/
+/-- program slice of `repeat_sequence_to_duration`: is_quantized_sequence, shift_sequence_times, remove_redundant_data__KP@F, concatenate_sequences__KLU_LU, is_quantized_sequence@F, _extract_subsequences__KU_LU_U@FBN, extract_subsequence__KU_S_U_U@FNBN, repeat_sequence_to_duration -/
 def ir_repeat_sequence_to_duration : Prog :=
-  let ix : Nat → Nat := fun g => match g with | 0 => 0 | 2 => 4 | 3 => 5 | 7 => 1 | 19 => 2 | 20 => 3 | 22 => 6 | _ => 99999
-  ⟨[op_is_quantized_sequence ix, op_shift_sequence_times ix, op_remove_redundant_data ix, op_concatenate_sequences ix, op__extract_subsequences ix, op_extract_subsequence ix, op_repeat_sequence_to_duration ix], [ct_is_quantized_sequence, ct_shift_sequence_times, ct_remove_redundant_data, ct_concatenate_sequences, ct__extract_subsequences, ct_extract_subsequence, ct_repeat_sequence_to_duration], 6⟩
+  let ix : Nat → Nat := fun g => match g with | 0 => 0 | 10 => 1 | 12 => 4 | 23 => 2 | 26 => 3 | 27 => 5 | 28 => 6 | 29 => 7 | _ => 99999
+  ⟨[op_is_quantized_sequence ix, op_shift_sequence_times ix, op_remove_redundant_data__KP_at_F ix, op_concatenate_sequences__KLU_LU ix, op_is_quantized_sequence_at_F ix, op__extract_subsequences__KU_LU_U_at_FBN ix, op_extract_subsequence__KU_S_U_U_at_FNBN ix, op_repeat_sequence_to_duration ix], [ct_is_quantized_sequence, ct_shift_sequence_times, ct_remove_redundant_data__KP_at_F, ct_concatenate_sequences__KLU_LU, ct_is_quantized_sequence_at_F, ct__extract_subsequences__KU_LU_U_at_FBN, ct_extract_subsequence__KU_S_U_U_at_FNBN, ct_repeat_sequence_to_duration], 7⟩
 
-/-- program slice of `expand_section_groups`: is_quantized_sequence, _extract_subsequences, extract_subsequence, expand_section_groups.sections_in_group, shift_sequence_times, remove_redundant_data, concatenate_sequences, expand_section_groups -/
+/-- program slice of `expand_section_groups`: is_quantized_sequence, _extract_subsequences__KU_LS_U@BNN, extract_subsequence__KU_S_S_U@BNNN, expand_section_groups.sections_in_group, is_quantized_sequence@F, shift_sequence_times__KU_S@FN, remove_redundant_data__KP@F, concatenate_sequences__KLU_LS@FN, expand_section_groups -/
 def ir_expand_section_groups : Prog :=
-  let ix : Nat → Nat := fun g => match g with | 0 => 0 | 2 => 1 | 3 => 2 | 7 => 4 | 19 => 5 | 20 => 6 | 23 => 3 | 24 => 7 | _ => 99999
-  ⟨[op_is_quantized_sequence ix, op__extract_subsequences ix, op_extract_subsequence ix, op_expand_section_groups_sections_in_group ix, op_shift_sequence_times ix, op_remove_redundant_data ix, op_concatenate_sequences ix, op_expand_section_groups ix], [ct_is_quantized_sequence, ct__extract_subsequences, ct_extract_subsequence, ct_expand_section_groups_sections_in_group, ct_shift_sequence_times, ct_remove_redundant_data, ct_concatenate_sequences, ct_expand_section_groups], 7⟩
+  let ix : Nat → Nat := fun g => match g with | 0 => 0 | 7 => 1 | 12 => 4 | 23 => 6 | 30 => 2 | 31 => 3 | 32 => 5 | 33 => 7 | 34 => 8 | _ => 99999
+  ⟨[op_is_quantized_sequence ix, op__extract_subsequences__KU_LS_U_at_BNN ix, op_extract_subsequence__KU_S_S_U_at_BNNN ix, op_expand_section_groups_sections_in_group ix, op_is_quantized_sequence_at_F ix, op_shift_sequence_times__KU_S_at_FN ix, op_remove_redundant_data__KP_at_F ix, op_concatenate_sequences__KLU_LS_at_FN ix, op_expand_section_groups ix], [ct_is_quantized_sequence, ct__extract_subsequences__KU_LS_U_at_BNN, ct_extract_subsequence__KU_S_S_U_at_BNNN, ct_expand_section_groups_sections_in_group, ct_is_quantized_sequence_at_F, ct_shift_sequence_times__KU_S_at_FN, ct_remove_redundant_data__KP_at_F, ct_concatenate_sequences__KLU_LS_at_FN, ct_expand_section_groups], 8⟩
 
 /-- program slice of `remove_redundant_data`: remove_redundant_data -/
 def ir_remove_redundant_data : Prog :=
-  let ix : Nat → Nat := fun g => match g with | 19 => 0 | _ => 99999
+  let ix : Nat → Nat := fun g => match g with | 35 => 0 | _ => 99999
   ⟨[op_remove_redundant_data ix], [ct_remove_redundant_data], 0⟩
 
 /-- program slice of `adjust_notesequence_times`: adjust_notesequence_times -/
 def ir_adjust_notesequence_times : Prog :=
-  let ix : Nat → Nat := fun g => match g with | 25 => 0 | _ => 99999
+  let ix : Nat → Nat := fun g => match g with | 36 => 0 | _ => 99999
   ⟨[op_adjust_notesequence_times ix], [ct_adjust_notesequence_times], 0⟩
 
-/-- program slice of `rectify_beats`: is_quantized_sequence, rectify_beats.time_func, adjust_notesequence_times, rectify_beats -/
+/-- program slice of `rectify_beats`: is_quantized_sequence, rectify_beats.time_func@NNBB, adjust_notesequence_times__KU_S_U@BNN, rectify_beats -/
 def ir_rectify_beats : Prog :=
-  let ix : Nat → Nat := fun g => match g with | 0 => 0 | 25 => 2 | 26 => 1 | 27 => 3 | _ => 99999
-  ⟨[op_is_quantized_sequence ix, op_rectify_beats_time_func ix, op_adjust_notesequence_times ix, op_rectify_beats ix], [ct_is_quantized_sequence, ct_rectify_beats_time_func, ct_adjust_notesequence_times, ct_rectify_beats], 3⟩
+  let ix : Nat → Nat := fun g => match g with | 0 => 0 | 37 => 1 | 38 => 2 | 39 => 3 | _ => 99999
+  ⟨[op_is_quantized_sequence ix, op_rectify_beats_time_func_at_NNBB ix, op_adjust_notesequence_times__KU_S_U_at_BNN ix, op_rectify_beats ix], [ct_is_quantized_sequence, ct_rectify_beats_time_func_at_NNBB, ct_adjust_notesequence_times__KU_S_U_at_BNN, ct_rectify_beats], 3⟩
 
 def allProgs : List (String × Prog) := [("trim_note_sequence", ir_trim_note_sequence), ("_extract_subsequences", ir__extract_subsequences), ("extract_subsequence", ir_extract_subsequence), ("split_note_sequence", ir_split_note_sequence), ("split_note_sequence_on_time_changes", ir_split_note_sequence_on_time_changes), ("split_note_sequence_on_silence", ir_split_note_sequence_on_silence), ("shift_sequence_times", ir_shift_sequence_times), ("stretch_note_sequence", ir_stretch_note_sequence), ("stretch_note_sequence__in_place", ir_stretch_note_sequence__in_place), ("transpose_note_sequence", ir_transpose_note_sequence), ("transpose_note_sequence__in_place", ir_transpose_note_sequence__in_place), ("_quantize_notes", ir__quantize_notes), ("quantize_note_sequence", ir_quantize_note_sequence), ("quantize_note_sequence_absolute", ir_quantize_note_sequence_absolute), ("apply_sustain_control_changes", ir_apply_sustain_control_changes), ("concatenate_sequences", ir_concatenate_sequences), ("merge_sequences", ir_merge_sequences), ("repeat_sequence_to_duration", ir_repeat_sequence_to_duration), ("expand_section_groups", ir_expand_section_groups), ("remove_redundant_data", ir_remove_redundant_data), ("adjust_notesequence_times", ir_adjust_notesequence_times), ("rectify_beats", ir_rectify_beats)]
 
